@@ -508,20 +508,1325 @@ Section Stream.
     clearbody k.
     assert (Hk2 : k <= h_buckets d) by (apply hbuckets_iff; [exact Hk1|rewrite Hbase; lia]).
     destruct (hbucket_facts k Hk1 Hk2) as (base & Eb & st0 & Ebase & Hmod0 & _ & _ & _ & _ & Edh & Ers & Hh0 & _).
-    rewrite Edh. rewrite <- Ebase in Hbase.
+    rewrite Edh. rewrite <- Ebase in Hbase. clear Hdm Hq.
+    set (m := (id - 1) mod b) in *. clearbody m.
     assert (Hres : forall a, holds a (snth S (id - 1)) ->
               match take0 (a_buf a) with
               | Some s => Some (Some (s, wsub32 (a_len a) 1))
               | None => None
               end = Some (Some (snth S (id - 1), lenN (snth S (id - 1))))).
-    { intros a Ha. destruct (holds_result a _ Ha (hs_nul_free _ ltac:(lia))) as [-> ->]. reflexivity. }
-    destruct (N.ltb_spec 0 ((id - 1) mod b)) as [Hpos|Hpos].
+    { intros a Ha. destruct (holds_result a _ Ha (hs_nul_free (id - 1) ltac:(lia))) as [-> ->]. reflexivity. }
+    destruct (N.ltb_spec 0 m) as [Hpos|Hpos].
     - rewrite Ers, (hiter_dstep base Hmod0 _ Hml ltac:(lia)).
-      replace (base + (id - 1) mod b) with (id - 1) by lia.
+      replace (base + m) with (id - 1) by lia.
       destruct (St (id - 1)) as [bb aa] eqn:Est.
       pose proof (hs_holds (id - 1) ltac:(lia)) as Hh. rewrite Est in Hh. cbn [snd] in Hh.
       rewrite (Hres aa Hh), N.eqb_refl. rewrite (nthN_snth S (id - 1)) by lia. reflexivity.
     - assert (Eid : id - 1 = base) by lia. destruct st0 as [bb aa]. cbn [snd] in Hh0. rewrite <- Eid in Hh0.
       rewrite (Hres aa Hh0), N.eqb_refl. rewrite (nthN_snth S (id - 1)) by lia. reflexivity.
   Qed.
+
+  (* ---------------------------------------------------------------- *)
+  (* locateBucket and locate                                           *)
+  (* ---------------------------------------------------------------- *)
+  Lemma H_lt j j' : 1 <= j -> j < j' -> j' <= h_buckets d -> lex_lt (H j) (H j').
+  Proof.
+    intros H1 H2 H3. unfold H. apply snth_lt; [exact Hsort| |apply hbuckets_iff; lia].
+    apply N.mul_lt_mono_pos_r; lia.
+  Qed.
+
+  Definition hbucket_post (q : str) (found : bool) (k : N) : Prop :=
+    k <= h_buckets d /\
+    if found then 1 <= k /\ H k = q
+    else (forall j, 1 <= j -> j <= k -> lex_lt (H j) q) /\
+         (forall j, k < j -> j <= h_buckets d -> lex_lt q (H j)).
+
+  Lemma hlocate_bucket_loop_spec q bq oq : nul_free q -> pack_string (h_cw d) (q ++ [0]) = Some (bq, oq) ->
+    forall fuel l r center cmp,
+    1 <= l -> r <= h_buckets d -> l <= r + 1 ->
+    (N.to_nat (r + 1 - l) < fuel)%nat ->
+    (forall j, 1 <= j -> j < l -> lex_lt (H j) q) ->
+    (forall j, r < j -> j <= h_buckets d -> lex_lt q (H j)) ->
+    (r < l -> match cmp with Lt => center | _ => center - 1 end = r) ->
+    exists found k, hlocate_bucket_loop fuel d bq l r center cmp = Some (found, k) /\
+                    hbucket_post q found k.
+  Proof.
+    intros Hnq Pq. induction fuel as [|f IH]; intros l r center cmp Hl Hr Hlr Hfuel Hlo Hhi Hexit; [lia|].
+    cbn [hlocate_bucket_loop]. destruct (N.leb_spec l r) as [Hle|Hgt].
+    - set (c := (l + r) / 2).
+      assert (Hc : l <= c <= r) by (unfold c; lia).
+      rewrite (hdr_memcmp_stream c q bq oq ltac:(lia) ltac:(lia) Hnq Pq).
+      destruct (lex_compare (H c) q) eqn:Ecmp.
+      + exists true, c. split; [reflexivity|]. split; [lia|]. split; [lia|].
+        apply lex_compare_eq in Ecmp. exact Ecmp.
+      + apply IH; try lia.
+        * intros j Hj1 Hj2. destruct (N.eq_dec j c) as [->|Hjc]; [exact Ecmp|].
+          apply (lex_lt_trans _ (H c)); [|exact Ecmp]. apply H_lt; lia.
+        * intros j Hj1 Hj2. apply Hhi; lia.
+      + apply lex_gt_lt in Ecmp. apply IH; try lia.
+        * intros j Hj1 Hj2. apply Hlo; lia.
+        * intros j Hj1 Hj2. destruct (N.eq_dec j c) as [->|Hjc]; [exact Ecmp|].
+          apply (lex_lt_trans _ (H c)); [exact Ecmp|]. apply H_lt; lia.
+    - exists false, r. split; [rewrite (Hexit Hgt); reflexivity|].
+      split; [exact Hr|]. split.
+      + intros j Hj1 Hj2. apply Hlo; lia.
+      + intros j Hj1 Hj2. apply Hhi; lia.
+  Qed.
+
+  Lemma hlocate_bucket_spec q bq oq : nul_free q -> pack_string (h_cw d) (q ++ [0]) = Some (bq, oq) ->
+    exists found k, hlocate_bucket d bq = Some (found, k) /\ hbucket_post q found k.
+  Proof.
+    intros Hnq Pq. unfold hlocate_bucket.
+    apply (hlocate_bucket_loop_spec q bq oq Hnq Pq); try lia.
+  Qed.
+
+  Lemma hlocate_cert_none q : (forall j, j < lenN S -> snth S j <> q) -> spec_locate S q = 0.
+  Proof.
+    intros Hall. apply spec_locate_absent. intros Hin'.
+    destruct (In_nth _ _ [] Hin') as (j & Hj & Ej).
+    apply (Hall (N.of_nat j)).
+    { unfold lenN, N.lt. rewrite <- Nat2N.inj_compare. apply Nat.compare_lt_iff. exact Hj. }
+    unfold snth. rewrite Nat2N.id. exact Ej.
+  Qed.
+
+  Lemma hlocate_cert_some q j : j < lenN S -> snth S j = q -> spec_locate S q = j + 1.
+  Proof.
+    intros Hj Ej. unfold spec_locate.
+    rewrite (nth_index_from S 1 j q ltac:(lia) (sorted_NoDup _ Hsort)); [lia|].
+    rewrite <- Ej. apply nthN_snth. exact Hj.
+  Qed.
+
+  Lemma hs_lt i j : i < j -> j < lenN S -> lex_lt (snth S i) (snth S j).
+  Proof. intros. apply snth_lt; [exact Hsort|assumption|assumption]. Qed.
+
+  Lemma hlt_neq a c : lex_lt a c -> a <> c.
+  Proof. intros Hlt ->. exact (lex_lt_irrefl _ Hlt). Qed.
+
+  (* the comparison of locate on the state after string i *)
+  Lemma hcmp_stream i q sh : i < lenN S -> nul_free q -> sh <= lcp (snth S i) q ->
+    exists z m, hcmp_from (snd (St i)) q sh 1 = Some (z, m) /\ cmp_agrees (snth S i) q 0 z m.
+  Proof.
+    intros Hi Hnq Hs. pose proof (lcp_le_l (snth S i) q).
+    rewrite (hcmp_from_cmp_from _ (snth S i) q sh 1 (hs_holds i Hi)) by lia.
+    apply cmp_from_spec; [apply hs_nul_free; exact Hi|exact Hnq|exact Hs].
+  Qed.
+
+  (* the for-loop of locate, entered after string i of the bucket (decoded, different from q) *)
+  Lemma hscan_spec q k base Eb : nul_free q -> base = (k - 1) * b -> base mod b = 0 ->
+    Eb <= base + b -> Eb <= lenN S ->
+    (Eb < lenN S -> lex_lt q (snth S Eb)) ->
+    forall (n : nat) i fuel,
+    base <= i -> i < Eb -> N.to_nat (Eb - 1 - i) = n -> (n < fuel)%nat ->
+    snth S i <> q ->
+    exists r, hscan_loop fuel d q k (Eb - base) (i - base + 1) (fst (St i)) (snd (St i)) (lcp (snth S i) q) = Some r /\
+      ((r = 0 /\ forall j, i < j -> j < lenN S -> snth S j <> q) \/
+       (exists j, i < j /\ j < Eb /\ snth S j = q /\ r = j + 1)).
+  Proof.
+    intros Hnq Ebase Hmod HE1 HE2 Hafter.
+    assert (Habove : forall i, i < lenN S -> lex_lt q (snth S i) -> forall j, i < j -> j < lenN S -> snth S j <> q).
+    { intros i Hi Hq j Hj1 Hj2 Ej. pose proof (hs_lt i j Hj1 Hj2) as Hlt. rewrite Ej in Hlt.
+      exact (lex_lt_asym _ _ Hq Hlt). }
+    induction n as [|n IH]; intros i fuel Hi1 Hi2 Hn Hf Hneq;
+      (destruct fuel as [|f]; [lia|]); cbn [hscan_loop].
+    - destruct (N.ltb_spec (i - base + 1) (Eb - base)); [lia|].
+      exists 0. split; [reflexivity|]. left. split; [reflexivity|].
+      intros j Hj1 Hj2. assert (Eb < lenN S) by lia. destruct (N.eq_dec j Eb) as [->|Hne'].
+      + apply not_eq_sym, hlt_neq, Hafter. assumption.
+      + apply (Habove Eb); [assumption|apply Hafter; assumption|lia|assumption].
+    - destruct (N.ltb_spec (i - base + 1) (Eb - base)); [|lia].
+      assert (Hi3 : i + 1 < Eb) by lia.
+      rewrite (hstream_dstep i ltac:(lia) (hin_bucket_mod base i Hmod Hi1 ltac:(lia))).
+      assert (Hii : lex_lt (snth S i) (snth S (i + 1))) by (apply hs_lt; lia).
+      destruct (N.ltb_spec (lcp (snth S i) (snth S (i + 1))) (lcp (snth S i) q)) as [Hsh|Hsh].
+      + exists 0. split; [reflexivity|]. left. split; [reflexivity|].
+        assert (Hq1 : lex_lt q (snth S (i + 1))).
+        { destruct (lex_total (snth S i) q) as [Hlt|[Heq|Hgt]]; [|contradiction|].
+          - apply (scan_trick_lt (snth S i)); assumption.
+          - apply (lex_lt_trans _ (snth S i)); assumption. }
+        intros j Hj1 Hj2. destruct (N.eq_dec j (i + 1)) as [->|Hne'].
+        * apply not_eq_sym, hlt_neq. exact Hq1.
+        * apply (Habove (i + 1)); [lia|exact Hq1|lia|assumption].
+      + assert (Hs : lcp (snth S i) q <= lcp (snth S (i + 1)) q).
+        { pose proof (lcp_min (snth S i) (snth S (i + 1)) q). lia. }
+        destruct (hcmp_stream (i + 1) q _ ltac:(lia) Hnq Hs) as (z & m & Ec & Hag).
+        rewrite Ec. unfold cmp_agrees in Hag.
+        destruct (lex_compare (snth S (i + 1)) q) eqn:Ecmp.
+        * subst z. cbn [Z.eqb]. eexists. split; [reflexivity|]. right. exists (i + 1).
+          apply lex_compare_eq in Ecmp. split; [lia|]. split; [lia|]. split; [exact Ecmp|].
+          rewrite Hbs, <- Ebase. lia.
+        * destruct Hag as [Hz ->]. destruct (Z.eqb_spec z 0); [lia|]. destruct (Z.ltb_spec 0 z); [lia|].
+          rewrite N.add_0_l.
+          assert (Hne1 : snth S (i + 1) <> q) by (apply hlt_neq; exact Ecmp).
+          destruct (IH (i + 1) f ltac:(lia) Hi3 ltac:(lia) ltac:(lia) Hne1) as (r & Er & Hr).
+          replace (i + 1 - base + 1) with (i - base + 1 + 1) in Er by lia. rewrite Er.
+          exists r. split; [reflexivity|]. destruct Hr as [[-> Hr]|(j & Hj1 & Hj2 & Hj3 & Hj4)].
+          -- left. split; [reflexivity|]. intros j Hj1 Hj2. destruct (N.eq_dec j (i + 1)) as [->|Hne'];
+               [exact Hne1|apply Hr; lia].
+          -- right. exists j. repeat split; auto. lia.
+        * destruct Hag as [Hz _]. destruct (Z.eqb_spec z 0); [lia|]. destruct (Z.ltb_spec 0 z); [|lia].
+          exists 0. split; [reflexivity|]. left. split; [reflexivity|].
+          apply lex_gt_lt in Ecmp.
+          intros j Hj1 Hj2. destruct (N.eq_dec j (i + 1)) as [->|Hne'].
+          -- apply not_eq_sym, hlt_neq. exact Ecmp.
+          -- apply (Habove (i + 1)); [lia|exact Ecmp|lia|assumption].
+  Qed.
+
+  Theorem htfc_locate_stream q : nul_free q -> Forall (fun c => c < 256) q ->
+    htfc_locate d q = Some (spec_locate S q).
+  Proof.
+    intros Hnq Hq256. unfold htfc_locate.
+    destruct (encode_string_pack d (q ++ [0]) Hcode) as (bq & oq & Ees & Pq).
+    { apply Forall_app. split; [exact Hq256|]. constructor; [lia|constructor]. }
+    { destruct q; discriminate. }
+    rewrite Ees.
+    destruct (hlocate_bucket_spec q bq oq Hnq Pq) as (found & k & Elb & Hk & Hpost). rewrite Elb.
+    destruct found.
+    - destruct Hpost as [Hk1 Hq]. rewrite Hbs. f_equal. symmetry.
+      apply hlocate_cert_some; [apply hbuckets_iff; assumption|exact Hq].
+    - destruct Hpost as [Hlo Hhi].
+      destruct (N.eqb_spec k 0) as [->|Hk0].
+      + f_equal. symmetry. apply hlocate_cert_none. intros j Hj.
+        pose proof (Hhi 1 ltac:(lia) hbuckets_pos) as H1. unfold H in H1.
+        replace ((1 - 1) * b) with 0 in H1 by lia.
+        destruct (N.eq_dec j 0) as [->|Hj0]; [apply not_eq_sym, hlt_neq; exact H1|].
+        apply not_eq_sym, hlt_neq. apply (lex_lt_trans _ (snth S 0)); [exact H1|apply hs_lt; lia].
+      + destruct (hbucket_facts k ltac:(lia) Hk)
+          as (base & Eb & st0 & Ebase & Hmod & HbE & HE1 & HE2 & Esc & Edh & Ers & _ & Hnext & _).
+        rewrite Edh. cbn [opt_bind]. rewrite Ers, Esc.
+        destruct (St base) as [bb0 aa0] eqn:Est0.
+        pose proof (Hlo k ltac:(lia) ltac:(lia)) as Hhk. unfold H in Hhk. rewrite <- Ebase in Hhk.
+        assert (Hafter : Eb < lenN S -> lex_lt q (snth S Eb)).
+        { intros Hlt. destruct (Hnext Hlt) as [EE Hk1]. pose proof (Hhi (k + 1) ltac:(lia) Hk1) as H2.
+          unfold H in H2. rewrite N.add_sub in H2. rewrite (mul_pred_succ k b ltac:(lia)), <- Ebase, <- EE in H2.
+          exact H2. }
+        assert (Hbelow : forall j, j <= base -> snth S j <> q).
+        { intros j Hj. apply hlt_neq. destruct (N.eq_dec j base) as [->|Hne']; [exact Hhk|].
+          apply (lex_lt_trans _ (snth S base)); [apply hs_lt; lia|exact Hhk]. }
+        assert (Habove : forall j, Eb <= j -> j < lenN S -> snth S j <> q).
+        { intros j Hj1 Hj2. apply not_eq_sym, hlt_neq. pose proof (Hafter ltac:(lia)) as Hq.
+          destruct (N.eq_dec j Eb) as [->|Hne']; [exact Hq|].
+          apply (lex_lt_trans _ (snth S Eb)); [exact Hq|apply hs_lt; lia]. }
+        destruct (N.ltb_spec 1 (Eb - base)) as [Hsc|Hsc].
+        * assert (Hm1 : (base + 1) mod b <> 0) by (apply (hin_bucket_mod base base Hmod); lia).
+          pose proof (hstream_dstep base ltac:(lia) Hm1) as Eds. rewrite Est0 in Eds. cbn [fst snd] in Eds.
+          rewrite Eds.
+          destruct (hcmp_stream (base + 1) q 0 ltac:(lia) Hnq ltac:(lia)) as (z & m & Ec & Hag).
+          rewrite Ec. unfold cmp_agrees in Hag.
+          destruct (lex_compare (snth S (base + 1)) q) eqn:Ecmp.
+          -- subst z. cbn [Z.eqb]. rewrite Hbs, <- Ebase. f_equal. symmetry.
+             apply lex_compare_eq in Ecmp. rewrite (hlocate_cert_some q (base + 1)); [lia|lia|exact Ecmp].
+          -- destruct Hag as [Hz ->]. destruct (Z.eqb_spec z 0); [lia|]. rewrite N.add_0_l.
+             assert (Hne1 : snth S (base + 1) <> q) by (apply hlt_neq; exact Ecmp).
+             destruct (hscan_spec q k base Eb Hnq Ebase Hmod HE1 HE2 Hafter
+                         (N.to_nat (Eb - 1 - (base + 1))) (base + 1) (N.to_nat (Eb - base))
+                         ltac:(lia) ltac:(lia) eq_refl ltac:(lia) Hne1) as (r & Er & Hr).
+             replace (base + 1 - base + 1) with 2 in Er by lia. rewrite Er. f_equal.
+             destruct Hr as [[-> Hr]|(j & Hj1 & Hj2 & Hj3 & ->)].
+             ++ symmetry. apply hlocate_cert_none. intros j Hj.
+                destruct (N.le_gt_cases j base); [apply Hbelow; assumption|].
+                destruct (N.eq_dec j (base + 1)) as [->|]; [exact Hne1|apply Hr; lia].
+             ++ symmetry. apply hlocate_cert_some; [lia|exact Hj3].
+          -- destruct Hag as [Hz ->]. destruct (Z.eqb_spec z 0); [lia|]. rewrite N.add_0_l.
+             apply lex_gt_lt in Ecmp.
+             assert (Hne1 : snth S (base + 1) <> q) by (apply not_eq_sym, hlt_neq; exact Ecmp).
+             destruct (hscan_spec q k base Eb Hnq Ebase Hmod HE1 HE2 Hafter
+                         (N.to_nat (Eb - 1 - (base + 1))) (base + 1) (N.to_nat (Eb - base))
+                         ltac:(lia) ltac:(lia) eq_refl ltac:(lia) Hne1) as (r & Er & Hr).
+             replace (base + 1 - base + 1) with 2 in Er by lia. rewrite Er. f_equal.
+             destruct Hr as [[-> Hr]|(j & Hj1 & Hj2 & Hj3 & ->)].
+             ++ symmetry. apply hlocate_cert_none. intros j Hj.
+                destruct (N.le_gt_cases j base); [apply Hbelow; assumption|].
+                destruct (N.eq_dec j (base + 1)) as [->|]; [exact Hne1|apply Hr; lia].
+             ++ symmetry. apply hlocate_cert_some; [lia|exact Hj3].
+        * f_equal. symmetry. apply hlocate_cert_none. intros j Hj.
+          destruct (N.le_gt_cases j base); [apply Hbelow; assumption|apply Habove; lia].
+  Qed.
 End Stream.
+
+(* ====================================================================== *)
+(* G. the scratch buffer, positionally                                     *)
+(* ====================================================================== *)
+(* the buffer holds l at position i *)
+Definition buf_at (buf : list N) (i : N) (l : list N) : Prop :=
+  forall j x, nthN l j = Some x -> nthN buf (i + j) = Some x.
+
+Lemma buf_at_nil buf i : buf_at buf i [].
+Proof. intros j x H. unfold nthN in H. destruct (N.to_nat j); discriminate. Qed.
+
+Lemma buf_at_app buf i x y : buf_at buf i (x ++ y) <-> buf_at buf i x /\ buf_at buf (i + lenN x) y.
+Proof.
+  split.
+  - intros H. split.
+    + intros j v Hj. apply H. rewrite nthN_app_l; [exact Hj|]. apply nthN_Some_lt in Hj. exact Hj.
+    + intros j v Hj. replace (i + lenN x + j) with (i + (lenN x + j)) by lia. apply H.
+      rewrite nthN_app_r by lia. replace (lenN x + j - lenN x) with j by lia. exact Hj.
+  - intros [H1 H2] j v Hj. destruct (N.lt_ge_cases j (lenN x)) as [Hlt|Hge].
+    + apply H1. rewrite nthN_app_l in Hj by exact Hlt. exact Hj.
+    + rewrite nthN_app_r in Hj by exact Hge. specialize (H2 _ _ Hj).
+      replace (i + lenN x + (j - lenN x)) with (i + j) in H2 by lia. exact H2.
+Qed.
+
+Lemma buf_at_cons buf i v l : buf_at buf i (v :: l) <-> nthN buf i = Some v /\ buf_at buf (i + 1) l.
+Proof.
+  change (v :: l) with ([v] ++ l). rewrite buf_at_app. change (lenN [v]) with 1.
+  split; intros [H1 H2]; split; try exact H2.
+  - specialize (H1 0 v eq_refl). rewrite N.add_0_r in H1. exact H1.
+  - intros j x Hj. unfold nthN in Hj. destruct (N.to_nat j) as [|k] eqn:Ej.
+    + cbn in Hj. inversion Hj; subst. replace j with 0 by lia. rewrite N.add_0_r. exact H1.
+    + cbn in Hj. destruct k; discriminate.
+Qed.
+
+Lemma skipn_nth_error_cons {A} : forall (l : list A) n x, nth_error l n = Some x -> skipn n l = x :: skipn (S n) l.
+Proof.
+  induction l as [|y l IH]; intros [|n] x H; cbn in H; try discriminate.
+  - inversion H; subst. reflexivity.
+  - cbn [skipn]. rewrite (IH n x H). reflexivity.
+Qed.
+
+(* the positional view gives the list view *)
+Lemma buf_at_skipN buf : forall l i, buf_at buf i l -> exists rest, skipN i buf = l ++ rest.
+Proof.
+  induction l as [|x l IH]; intros i H.
+  - exists (skipN i buf). reflexivity.
+  - apply buf_at_cons in H. destruct H as [Hx Hl]. destruct (IH _ Hl) as [rest Hr].
+    exists rest. unfold skipN in *. unfold nthN in Hx. rewrite (skipn_nth_error_cons _ _ _ Hx).
+    replace (S (N.to_nat i)) with (N.to_nat (i + 1)) by lia. rewrite Hr. reflexivity.
+Qed.
+
+Lemma buf_at_len buf i l : buf_at buf i l -> i + lenN l <= lenN buf \/ l = [].
+Proof.
+  intros H. destruct l as [|x l] using rev_ind; [right; reflexivity|]. left.
+  specialize (H (lenN l) x). rewrite nthN_app_r in H by lia. rewrite N.sub_diag in H. specialize (H eq_refl).
+  apply nthN_Some_lt in H. rewrite lenN_app. change (lenN [x]) with 1. lia.
+Qed.
+
+Lemma buf_at_0_prefix buf l : buf_at buf 0 l -> exists rest, buf = l ++ rest.
+Proof. intros H. destruct (buf_at_skipN _ _ _ H) as [r Hr]. exists r. exact Hr. Qed.
+
+(* ---- single write *)
+Lemma set_nth_nth : forall l i v k, (i < length l)%nat ->
+  nth_error (set_nth l i v) k = if Nat.eqb k i then Some v else nth_error l k.
+Proof.
+  induction l as [|x l IH]; intros i v k Hi; [cbn in Hi; lia|].
+  destruct i as [|i]; cbn [set_nth].
+  - destruct k; reflexivity.
+  - destruct k as [|k]; [reflexivity|]. cbn [nth_error Nat.eqb]. apply IH. cbn in Hi. lia.
+Qed.
+
+Lemma set_nth_length : forall l i v, length (set_nth l i v) = length l.
+Proof. induction l as [|x l IH]; intros [|i] v; cbn; auto. Qed.
+
+Lemma buf_write_spec buf cap i v : i <= lenN buf -> i < cap ->
+  exists buf', buf_write buf cap i v = Some buf' /\ nthN buf' i = Some v /\
+    (forall k, k <> i -> nthN buf' k = nthN buf k) /\ lenN buf' = N.max (lenN buf) (i + 1).
+Proof.
+  intros Hi Hc. unfold buf_write. destruct (N.ltb_spec i cap); [|lia].
+  destruct (N.ltb_spec i (lenN buf)) as [Hlt|Hge].
+  - eexists. split; [reflexivity|]. split; [|split].
+    + unfold nthN. rewrite set_nth_nth by (unfold lenN in Hlt; lia). rewrite Nat.eqb_refl. reflexivity.
+    + intros k Hk. unfold nthN. rewrite set_nth_nth by (unfold lenN in Hlt; lia).
+      destruct (Nat.eqb_spec (N.to_nat k) (N.to_nat i)); [lia|reflexivity].
+    + unfold lenN. rewrite set_nth_length. unfold lenN in Hlt. lia.
+  - assert (i = lenN buf) by lia. subst i. rewrite N.eqb_refl.
+    eexists. split; [reflexivity|]. split; [|split].
+    + rewrite nthN_app_r by lia. rewrite N.sub_diag. reflexivity.
+    + intros k Hk. destruct (N.lt_ge_cases k (lenN buf)).
+      * apply nthN_app_l. assumption.
+      * unfold nthN. transitivity (@None N); [|symmetry]; apply nth_error_None.
+        -- rewrite app_length. cbn [length]. unfold lenN in *. lia.
+        -- unfold lenN in *. lia.
+    + rewrite lenN_app. change (lenN [v]) with 1. lia.
+Qed.
+
+(* ---- writing a list *)
+Lemma buf_write_list_spec : forall l buf cap i, i <= lenN buf -> i + lenN l <= cap ->
+  exists buf', buf_write_list buf cap i l = Some buf' /\ buf_at buf' i l /\
+    (forall k, k < i \/ i + lenN l <= k -> nthN buf' k = nthN buf k) /\
+    lenN buf' = N.max (lenN buf) (i + lenN l).
+Proof.
+  induction l as [|v l IH]; intros buf cap i Hi Hc.
+  - exists buf. split; [reflexivity|]. split; [apply buf_at_nil|]. split; [reflexivity|].
+    change (lenN (@nil N)) with 0. lia.
+  - rewrite lenN_cons in Hc. cbn [buf_write_list].
+    destruct (buf_write_spec buf cap i v Hi ltac:(lia)) as (buf1 & E1 & Hv & Hfr & Hl1). rewrite E1.
+    destruct (IH buf1 cap (i + 1) ltac:(lia) ltac:(lia)) as (buf2 & E2 & Hat & Hfr2 & Hl2). rewrite E2.
+    exists buf2. split; [reflexivity|]. split; [|split].
+    + apply buf_at_cons. split; [|exact Hat]. rewrite Hfr2 by lia. exact Hv.
+    + intros k Hk. rewrite lenN_cons in Hk. rewrite Hfr2 by lia. apply Hfr. lia.
+    + rewrite lenN_cons. lia.
+Qed.
+
+(* ---- the copy loops (forward, destination not after the source) *)
+Lemma buf_copy_f_spec : forall fuel n buf cap src dst,
+  (N.to_nat n <= fuel)%nat -> dst <= src -> src + n <= lenN buf -> dst + n <= cap ->
+  exists buf', buf_copy_f fuel n buf cap src dst = Some buf' /\
+    (forall j, j < n -> nthN buf' (dst + j) = nthN buf (src + j)) /\
+    (forall k, k < dst \/ dst + n <= k -> nthN buf' k = nthN buf k) /\ lenN buf' = lenN buf.
+Proof.
+  induction fuel as [|f IH]; intros n buf cap src dst Hf Hds Hsrc Hcap.
+  - assert (n = 0) by lia. subst n. cbn [buf_copy_f N.eqb]. exists buf. split; [reflexivity|].
+    split; [intros j Hj; lia|]. split; reflexivity.
+  - cbn [buf_copy_f]. destruct (N.eqb_spec n 0) as [->|Hn].
+    + exists buf. split; [reflexivity|]. split; [intros j Hj; lia|]. split; reflexivity.
+    + destruct (nthN_lt_Some buf src ltac:(lia)) as [v Ev]. rewrite rdN_nthN, Ev.
+      destruct (buf_write_spec buf cap dst v ltac:(lia) ltac:(lia)) as (buf1 & E1 & Hv & Hfr & Hl1). rewrite E1.
+      assert (Hl1' : lenN buf1 = lenN buf) by lia.
+      destruct (IH (n - 1) buf1 cap (src + 1) (dst + 1) ltac:(lia) ltac:(lia) ltac:(lia) ltac:(lia))
+        as (buf2 & E2 & Hcp & Hfr2 & Hl2). rewrite E2.
+      exists buf2. split; [reflexivity|]. split; [|split].
+      * intros j Hj. destruct (N.eq_dec j 0) as [->|Hj0].
+        -- rewrite !N.add_0_r. rewrite Hfr2 by lia. rewrite Hv, Ev. reflexivity.
+        -- specialize (Hcp (j - 1) ltac:(lia)).
+           replace (dst + 1 + (j - 1)) with (dst + j) in Hcp by lia.
+           replace (src + 1 + (j - 1)) with (src + j) in Hcp by lia.
+           rewrite Hcp. apply Hfr. lia.
+      * intros k Hk. rewrite Hfr2 by lia. apply Hfr. lia.
+      * lia.
+Qed.
+
+Lemma buf_copy_spec n buf cap src dst data :
+  dst <= src -> buf_at buf src data -> lenN data = n -> dst + n <= cap ->
+  exists buf', buf_copy n buf cap src dst = Some buf' /\ buf_at buf' dst data /\
+    (forall k, k < dst \/ dst + n <= k -> nthN buf' k = nthN buf k) /\ lenN buf' = lenN buf.
+Proof.
+  intros Hds Hat Hn Hcap. unfold buf_copy.
+  destruct (N.eq_dec n 0) as [->|Hn0].
+  { cbn [buf_copy_f N.eqb]. exists buf. split; [reflexivity|]. split; [|split; reflexivity].
+    destruct data; [apply buf_at_nil|rewrite lenN_cons in Hn; lia]. }
+  assert (Hsrc : src + n <= lenN buf).
+  { destruct (buf_at_len _ _ _ Hat) as [H|H]; [lia|]. subst data. change (lenN (@nil N)) with 0 in Hn. lia. }
+  destruct (buf_copy_f_spec (S (N.to_nat cap)) n buf cap src dst ltac:(lia) Hds Hsrc Hcap)
+    as (buf' & E & Hcp & Hfr & Hl).
+  exists buf'. split; [exact E|]. split; [|split; assumption].
+  intros j x Hj. rewrite Hcp by (apply nthN_Some_lt in Hj; lia). apply Hat. exact Hj.
+Qed.
+
+(* ====================================================================== *)
+(* H. the chunk chain                                                      *)
+(* ====================================================================== *)
+Lemma has0_nul_free l : nul_free l -> has0 l = false.
+Proof.
+  induction l as [|x l IH]; intros H; [reflexivity|]. apply nul_free_cons in H. destruct H as [Hx Hl].
+  cbn [has0]. destruct (N.eqb_spec x 0); [contradiction|]. cbn [orb]. auto.
+Qed.
+
+Lemma has0_mid a r : has0 (a ++ 0 :: r) = true.
+Proof. induction a as [|x a IH]; cbn [app has0]; [reflexivity|]. rewrite IH. apply orb_true_r. Qed.
+
+Lemma idx0_mid a r : nul_free a -> idx0 (a ++ 0 :: r) = lenN a.
+Proof.
+  induction a as [|x a IH]; intros H; cbn [app idx0]; [reflexivity|].
+  apply nul_free_cons in H. destruct H as [Hx Hl]. destruct (N.eqb_spec x 0); [contradiction|].
+  rewrite IH by exact Hl. rewrite lenN_cons. reflexivity.
+Qed.
+
+Lemma nul_free_app a b : nul_free (a ++ b) <-> nul_free a /\ nul_free b.
+Proof. unfold nul_free. apply Forall_app. Qed.
+
+(* table entries read from bit state bs until [need] symbols are there *)
+Inductive reads (d : htfc) : bst -> list N -> N -> bst -> list N -> Prop :=
+| reads_done bs A need : need <= lenN A -> reads d bs A need bs A
+| reads_step bs A need pos syms bs1 bs' A' :
+    lenN A < need -> bstep d bs = Some (CReg pos syms (has0 syms), bs1) -> syms <> [] ->
+    (has0 syms = true -> buf_strlen (h_stream d) pos = Some (idx0 syms)) ->
+    reads d bs1 (A ++ syms) need bs' A' -> reads d bs A need bs' A'.
+
+Lemma item_walk_sound d : forall fuel bs A need bs' A',
+  item_walk fuel d bs A need = Some (bs', A') -> reads d bs A need bs' A'.
+Proof.
+  induction fuel as [|f IH]; intros bs A need bs' A' H.
+  - cbn [item_walk] in H. destruct (N.leb_spec need (lenN A)); [|discriminate].
+    inversion H; subst. constructor. assumption.
+  - cbn [item_walk] in H. destruct (N.leb_spec need (lenN A)) as [Hle|Hlt].
+    + inversion H; subst. constructor. assumption.
+    + destruct (bstep d bs) as [[e bs1]|] eqn:Eb; [|discriminate].
+      destruct e as [pos syms ending|]; [|discriminate].
+      destruct (negb (lenN syms =? 0) && Bool.eqb ending (has0 syms) &&
+                (if ending then match buf_strlen (h_stream d) pos with Some sl => sl =? idx0 syms | None => false end
+                 else true)) eqn:Ec; [|discriminate].
+      apply andb_true_iff in Ec. destruct Ec as [Ec Hs]. apply andb_true_iff in Ec. destruct Ec as [Hn He].
+      apply Bool.eqb_prop in He. subst ending.
+      apply (reads_step d bs A need pos syms bs1 bs' A'); auto.
+      * destruct syms; [discriminate|]. discriminate.
+      * intros Hh. rewrite Hh in Hs. destruct (buf_strlen (h_stream d) pos) as [sl|]; [|discriminate].
+        apply N.eqb_eq in Hs. subst sl. reflexivity.
+Qed.
+
+Lemma reads_extends d bs A need bs' A' : reads d bs A need bs' A' -> exists X, A' = A ++ X.
+Proof.
+  induction 1 as [bs A need Hle|bs A need pos syms bs1 bs' A' Hlt Eb Hne Hs Hr [X HX]].
+  - exists []. rewrite app_nil_r. reflexivity.
+  - exists (syms ++ X). rewrite HX, app_assoc. reflexivity.
+Qed.
+
+(* ====================================================================== *)
+(* I. one processChunk step of the string assembly                         *)
+(* ====================================================================== *)
+Lemma wu32_small x : x < 2 ^ 32 -> wu32 x = x.
+Proof. intros H. unfold wu32. apply N.mod_small. exact H. Qed.
+
+Lemma wsub32_small a b : b <= a -> a < 2 ^ 32 -> wsub32 a b = a - b.
+Proof.
+  intros H1 H2. unfold wsub32. rewrite (N.mod_small b) by lia.
+  replace (a + 2 ^ 32 - b) with (a - b + 1 * 2 ^ 32) by lia.
+  rewrite N.mod_add by lia. apply N.mod_small. lia.
+Qed.
+
+(* the upcoming symbols are R (NUL-free), the NUL, then A' *)
+Lemma upcoming_split (syms X R A' : list N) : syms ++ X = R ++ 0 :: A' -> nul_free R ->
+  (lenN syms <= lenN R /\ exists R', R = syms ++ R' /\ X = R' ++ 0 :: A' /\ nul_free syms) \/
+  (lenN R < lenN syms /\ exists s2, syms = R ++ 0 :: s2 /\ A' = s2 ++ X).
+Proof.
+  intros E HR. destruct (app_eq_app _ _ _ _ E) as [w [[E1 E2]|[E1 E2]]].
+  - (* syms = R ++ w *) destruct w as [|z w].
+    + rewrite app_nil_r in E1. subst syms. left. split; [lia|]. exists []. rewrite app_nil_r.
+      cbn [app] in E2. split; [reflexivity|]. split; [symmetry; exact E2|exact HR].
+    + cbn [app] in E2. inversion E2; subst. right. split.
+      * rewrite lenN_app, lenN_cons. lia.
+      * exists w. split; reflexivity.
+  - (* R = syms ++ w *) left. subst R. apply nul_free_app in HR. destruct HR as [Hs Hw].
+    split; [rewrite lenN_app; lia|]. exists w. split; [reflexivity|]. split; [exact E2|exact Hs].
+Qed.
+
+Section Step.
+  Variables (d : htfc) (cap : N).
+  Hypothesis Hcap : cap < 2 ^ 32.
+
+  Lemma pc_step bs a pos syms bs1 X R A' L n :
+    a_len a = L -> L <= lenN (a_buf a) -> a_ext a = n ->
+    bstep d bs = Some (CReg pos syms (has0 syms), bs1) -> syms <> [] ->
+    (has0 syms = true -> buf_strlen (h_stream d) pos = Some (idx0 syms)) ->
+    nul_free R -> syms ++ X = R ++ 0 :: A' ->
+    (lenN R < lenN syms -> 2 < n + lenN syms) ->
+    L + lenN syms <= cap -> n + lenN syms < 2 ^ 32 ->
+    exists a', process_chunk d cap bs a = Some (bs1, a', negb (lenN syms <=? lenN R)) /\
+      buf_at (a_buf a') L syms /\ (forall k, k < L -> nthN (a_buf a') k = nthN (a_buf a) k) /\
+      a_ext a' = n + lenN syms /\ a_len a' <= lenN (a_buf a') /\
+      (lenN syms <= lenN R -> a_len a' = L + lenN syms) /\
+      (lenN R < lenN syms -> a_len a' = L + lenN R + 1 /\ a_adv a' = lenN syms - lenN R - 1).
+  Proof.
+    intros HL HLb Hn Eb Hne Hs HR Eup Hext HcapL Hn32.
+    unfold process_chunk. rewrite Eb. cbn [asm_step]. rewrite HL, Hn.
+    destruct (buf_write_list_spec syms (a_buf a) cap L HLb HcapL) as (buf' & Ew & Hat & Hfr & Hlen).
+    rewrite Ew. rewrite (wu32_small (n + lenN syms)) by exact Hn32.
+    destruct (upcoming_split _ _ _ _ Eup HR) as [[Hle (R' & ER & EX & Hnf)]|[Hlt (s2 & Es & EA)]].
+    - (* no NUL in this entry *)
+      destruct (N.leb_spec (lenN syms) (lenN R)); [|lia]. cbn [negb].
+      rewrite (has0_nul_free _ Hnf).
+      destruct (n + lenN syms <=? 2).
+      + eexists. split; [reflexivity|]. cbn [a_buf a_len a_ext a_adv].
+        rewrite (wu32_small (L + lenN syms)) by lia.
+        split; [exact Hat|]. split; [intros k Hk; apply Hfr; lia|]. split; [reflexivity|].
+        split; [lia|]. split; [reflexivity|lia].
+      + eexists. split; [reflexivity|]. cbn [a_buf a_len a_ext a_adv].
+        rewrite (wu32_small (L + lenN syms)) by lia.
+        split; [exact Hat|]. split; [intros k Hk; apply Hfr; lia|]. split; [reflexivity|].
+        split; [lia|]. split; [reflexivity|lia].
+    - (* the entry holds the NUL *)
+      destruct (N.leb_spec (lenN syms) (lenN R)); [lia|]. cbn [negb].
+      specialize (Hext Hlt). destruct (N.leb_spec (n + lenN syms) 2); [lia|].
+      assert (Hh : has0 syms = true) by (rewrite Es; apply has0_mid).
+      rewrite Hh. rewrite (Hs Hh). assert (Ei : idx0 syms = lenN R) by (rewrite Es; apply idx0_mid; exact HR).
+      rewrite Ei. rewrite (wu32_small (lenN R + 1)) by lia.
+      eexists. split; [reflexivity|]. cbn [a_buf a_len a_ext a_adv].
+      rewrite (wu32_small (L + (lenN R + 1))) by lia. rewrite wsub32_small by lia.
+      split; [exact Hat|]. split; [intros k Hk; apply Hfr; lia|]. split; [reflexivity|].
+      split; [lia|]. split; [lia|]. intros _. split; lia.
+  Qed.
+End Step.
+
+(* ====================================================================== *)
+(* J. the loops of decodeString                                            *)
+(* ====================================================================== *)
+Lemma ds_rest_eq fuel d cap b a fin :
+  ds_rest fuel d cap b a fin =
+  if fin then Some (b, a)
+  else match fuel with
+       | O => None
+       | S f => match process_chunk d cap b a with
+                | None => None
+                | Some (b', a', fin') => ds_rest f d cap b' a' fin'
+                end
+       end.
+Proof. destruct fuel; reflexivity. Qed.
+
+Lemma ds_first_eq fuel d cap prevLen b a fin :
+  ds_first fuel d cap prevLen b a fin =
+  if wsub32 (a_len a) prevLen <? 2 then
+    match fuel with
+    | O => None
+    | S f => match process_chunk d cap b a with
+             | None => None
+             | Some (b', a', fin') => ds_first f d cap prevLen b' a' fin'
+             end
+    end
+  else Some (b, a, fin).
+Proof. destruct fuel; reflexivity. Qed.
+
+Lemma buf_at_frame buf buf' i l :
+  buf_at buf i l -> (forall k, i <= k -> k < i + lenN l -> nthN buf' k = nthN buf k) -> buf_at buf' i l.
+Proof.
+  intros H Hfr j x Hj. rewrite Hfr; [apply H; exact Hj|lia|]. apply nthN_Some_lt in Hj. lia.
+Qed.
+
+Lemma reads_done_inv d bs A need bs' A' : reads d bs A need bs' A' -> need <= lenN A -> bs' = bs /\ A' = A.
+Proof. intros H Hle. inversion H; subst; [split; reflexivity|lia]. Qed.
+
+Section Loops.
+  Variables (d : htfc) (cap : N).
+  Hypothesis Hcap : cap < 2 ^ 32.
+
+  (* `while (!end) end = processChunk(c)` once at least two symbols of the item have been seen:
+     Acc = the symbols of the item seen so far, R = the rest of its body, then the NUL, then A' *)
+  Lemma ds_rest_spec bs Acc need bs' Afull : reads d bs Acc need bs' Afull ->
+    forall R A' a L fuel,
+    Afull = Acc ++ R ++ 0 :: A' -> need = lenN Acc + lenN R + 1 -> nul_free R -> 2 <= lenN Acc ->
+    a_len a = L -> L <= lenN (a_buf a) -> a_ext a = lenN Acc ->
+    L + lenN R + 1 + lenN A' <= cap -> lenN Afull < 2 ^ 32 ->
+    (N.to_nat (lenN R) < fuel)%nat ->
+    exists a', ds_rest fuel d cap bs a false = Some (bs', a') /\
+      buf_at (a_buf a') L (R ++ 0 :: A') /\ (forall k, k < L -> nthN (a_buf a') k = nthN (a_buf a) k) /\
+      a_len a' = L + lenN R + 1 /\ a_adv a' = lenN A' /\ a_len a' <= lenN (a_buf a').
+  Proof.
+    induction 1 as [bs Acc need Hle|bs Acc need pos syms bs1 bs' Afull Hlt Eb Hne Hs Hr IH];
+      intros R A' a L fuel EA En HR H2 HL HLb Hext Hcp H32 Hf.
+    - lia.
+    - destruct (reads_extends _ _ _ _ _ _ Hr) as [X EX].
+      assert (Eup : syms ++ X = R ++ 0 :: A').
+      { rewrite EA, <- app_assoc in EX. apply app_inv_head in EX. symmetry. exact EX. }
+      assert (Hlens : lenN Afull = lenN Acc + lenN syms + lenN X) by (rewrite EX, !lenN_app; lia).
+      assert (Hlens2 : lenN syms + lenN X = lenN R + 1 + lenN A').
+      { apply (f_equal lenN) in Eup. rewrite !lenN_app, lenN_cons in Eup. lia. }
+      destruct fuel as [|f]; [lia|]. rewrite ds_rest_eq.
+      assert (Hsl : 1 <= lenN syms) by (destruct syms; [congruence|rewrite lenN_cons; lia]).
+      destruct (upcoming_split _ _ _ _ Eup HR) as [[Hle (R' & ER & EX' & Hnf)]|[Hlt' (s2 & Es & EA')]].
+      + destruct (pc_step d cap Hcap bs a pos syms bs1 X R A' L (lenN Acc) HL HLb Hext Eb Hne Hs HR Eup
+                    ltac:(lia) ltac:(lia) ltac:(lia))
+          as (a1 & Ep & Hat & Hfr & Hex & Hlb & Hl1 & _).
+        rewrite Ep. destruct (N.leb_spec (lenN syms) (lenN R)); [|lia]. cbn [negb].
+        specialize (Hl1 Hle).
+        assert (ElR : lenN R = lenN syms + lenN R') by (rewrite ER, lenN_app; reflexivity).
+        destruct (IH R' A' a1 (L + lenN syms) f) as (a' & Ed & Hat' & Hfr' & Hl' & Had' & Hlb');
+          try assumption; try lia.
+        * rewrite EA, ER, <- !app_assoc. reflexivity.
+        * rewrite lenN_app. lia.
+        * rewrite ER in HR. apply nul_free_app in HR. apply HR.
+        * rewrite lenN_app. lia.
+        * rewrite lenN_app. lia.
+        * exists a'. split; [exact Ed|]. split; [|split; [|split; [|split]]]; try lia; try assumption.
+          -- rewrite ER, <- app_assoc. apply buf_at_app. split; [|exact Hat'].
+             apply (buf_at_frame (a_buf a1)); [exact Hat|]. intros k Hk1 Hk2. apply Hfr'. lia.
+          -- intros k Hk. rewrite Hfr' by lia. apply Hfr. exact Hk.
+      + destruct (pc_step d cap Hcap bs a pos syms bs1 X R A' L (lenN Acc) HL HLb Hext Eb Hne Hs HR Eup
+                    ltac:(lia) ltac:(lia) ltac:(lia))
+          as (a1 & Ep & Hat & Hfr & Hex & Hlb & _ & Hl2).
+        rewrite Ep. destruct (N.leb_spec (lenN syms) (lenN R)); [lia|]. cbn [negb].
+        destruct (Hl2 Hlt') as [Hl2a Hl2b]. rewrite ds_rest_eq.
+        (* the sub-derivation is finished: Afull = Acc ++ syms *)
+        destruct (reads_done_inv _ _ _ _ _ _ Hr) as [Ebs EAf].
+        { rewrite lenN_app. lia. }
+        assert (HX : X = []).
+        { rewrite EAf in EX. rewrite <- (app_nil_r (Acc ++ syms)) in EX at 1. apply app_inv_head in EX. auto. }
+        subst X. rewrite app_nil_r in EA'. subst s2.
+        subst bs'. exists a1. split; [reflexivity|]. rewrite <- Es.
+        split; [exact Hat|]. split; [exact Hfr|]. split; [exact Hl2a|]. split; [|exact Hlb].
+        rewrite Hl2b, Es, lenN_app, lenN_cons. lia.
+  Qed.
+
+  (* `while ((c->strLen - prevLen) < 2) end = processChunk(c)`: Acc = the symbols of the item already there
+     (handed out in advance), stored at str[P ..] *)
+  Lemma ds_first_spec bs Acc need bs' Afull : reads d bs Acc need bs' Afull ->
+    forall R A' a P fuel,
+    Afull = Acc ++ R ++ 0 :: A' -> need = lenN Acc + lenN R + 1 -> nul_free R -> 2 <= lenN Acc + lenN R ->
+    a_len a = P + lenN Acc -> a_len a <= lenN (a_buf a) -> a_ext a = lenN Acc ->
+    P + lenN Afull <= cap ->
+    (N.to_nat (2 - lenN Acc) < fuel)%nat ->
+    exists bs1 a1 fin1, ds_first fuel d cap P bs a false = Some (bs1, a1, fin1) /\
+      (forall k, k < P + lenN Acc -> nthN (a_buf a1) k = nthN (a_buf a) k) /\ a_len a1 <= lenN (a_buf a1) /\
+      ((fin1 = false /\ exists New, 2 <= lenN (Acc ++ New) /\ lenN (Acc ++ New) < need /\
+          reads d bs1 (Acc ++ New) need bs' Afull /\ a_len a1 = P + lenN (Acc ++ New) /\
+          a_ext a1 = lenN (Acc ++ New) /\ buf_at (a_buf a1) (P + lenN Acc) New) \/
+       (fin1 = true /\ bs1 = bs' /\ a_len a1 = P + need /\ a_adv a1 = lenN A' /\
+          buf_at (a_buf a1) (P + lenN Acc) (R ++ 0 :: A'))).
+  Proof.
+    induction 1 as [bs Acc need Hle|bs Acc need pos syms bs1 bs' Afull Hlt Eb Hne Hs Hr IH];
+      intros R A' a P fuel EA En HR H2 HL HLb Hext Hcp Hf.
+    - lia.
+    - assert (HlenA : lenN Afull = lenN Acc + lenN R + 1 + lenN A').
+      { rewrite EA, !lenN_app, lenN_cons. lia. }
+      rewrite ds_first_eq. rewrite HL. rewrite wsub32_small by lia. replace (P + lenN Acc - P) with (lenN Acc) by lia.
+      destruct (N.ltb_spec (lenN Acc) 2) as [Hsmall|Hbig].
+      2:{ exists bs, a, false. split; [reflexivity|]. split; [reflexivity|]. split; [lia|].
+          left. split; [reflexivity|]. exists []. rewrite app_nil_r.
+          split; [lia|]. split; [lia|]. split; [|split; [exact HL|split; [exact Hext|apply buf_at_nil]]].
+          apply (reads_step d bs Acc need pos syms bs1 bs' Afull); assumption. }
+      destruct fuel as [|f]; [lia|].
+      destruct (reads_extends _ _ _ _ _ _ Hr) as [X EX].
+      assert (Eup : syms ++ X = R ++ 0 :: A').
+      { rewrite EA, <- app_assoc in EX. apply app_inv_head in EX. symmetry. exact EX. }
+      assert (Hlens2 : lenN syms + lenN X = lenN R + 1 + lenN A').
+      { apply (f_equal lenN) in Eup. rewrite !lenN_app, lenN_cons in Eup. lia. }
+      assert (Hsl : 1 <= lenN syms) by (destruct syms; [congruence|rewrite lenN_cons; lia]).
+      destruct (pc_step d cap Hcap bs a pos syms bs1 X R A' (P + lenN Acc) (lenN Acc) HL ltac:(lia) Hext Eb Hne Hs HR Eup
+                  ltac:(lia) ltac:(lia) ltac:(lia))
+        as (a1 & Ep & Hat & Hfr & Hex & Hlb & Hl1 & Hl2).
+      rewrite Ep.
+      destruct (upcoming_split _ _ _ _ Eup HR) as [[Hle (R' & ER & EX' & Hnf)]|[Hlt' (s2 & Es & EA')]].
+      + destruct (N.leb_spec (lenN syms) (lenN R)); [|lia]. cbn [negb]. specialize (Hl1 Hle).
+        assert (ElR : lenN R = lenN syms + lenN R') by (rewrite ER, lenN_app; reflexivity).
+        destruct (IH R' A' a1 P f) as (bs2 & a2 & fin2 & Ed & Hfr2 & Hlb2 & Hcase);
+          try assumption; try (rewrite ?lenN_app; lia).
+        * rewrite EA, ER, <- !app_assoc. reflexivity.
+        * rewrite ER in HR. apply nul_free_app in HR. apply HR.
+        * exists bs2, a2, fin2. split; [exact Ed|]. split; [|split; [exact Hlb2|]].
+          { intros k Hk. rewrite Hfr2 by (rewrite lenN_app; lia). apply Hfr. exact Hk. }
+          assert (Hsy : buf_at (a_buf a2) (P + lenN Acc) syms).
+          { apply (buf_at_frame (a_buf a1)); [exact Hat|]. intros k Hk1 Hk2. apply Hfr2. rewrite lenN_app. lia. }
+          destruct Hcase as [(-> & New & N1 & N2 & N3 & N4 & N5 & N6)|(-> & -> & F2 & F3 & F4)].
+          -- left. split; [reflexivity|]. exists (syms ++ New). rewrite app_assoc.
+             split; [exact N1|]. split; [exact N2|]. split; [exact N3|]. split; [exact N4|]. split; [exact N5|].
+             apply buf_at_app. split; [exact Hsy|]. rewrite lenN_app in N6.
+             replace (P + lenN Acc + lenN syms) with (P + (lenN Acc + lenN syms)) by lia. exact N6.
+          -- right. split; [reflexivity|]. split; [reflexivity|]. split; [exact F2|]. split; [exact F3|].
+             rewrite ER, <- app_assoc. apply buf_at_app. split; [exact Hsy|]. rewrite lenN_app in F4.
+             replace (P + lenN Acc + lenN syms) with (P + (lenN Acc + lenN syms)) by lia. exact F4.
+      + destruct (N.leb_spec (lenN syms) (lenN R)); [lia|]. cbn [negb].
+        destruct (Hl2 Hlt') as [Hl2a Hl2b]. rewrite ds_first_eq. rewrite Hl2a.
+        rewrite wsub32_small by lia.
+        destruct (N.ltb_spec (P + lenN Acc + lenN R + 1 - P) 2); [lia|].
+        destruct (reads_done_inv _ _ _ _ _ _ Hr) as [Ebs EAf].
+        { rewrite lenN_app. lia. }
+        assert (HX : X = []).
+        { rewrite EAf in EX. rewrite <- (app_nil_r (Acc ++ syms)) in EX at 1. apply app_inv_head in EX. auto. }
+        subst X. rewrite app_nil_r in EA'. subst s2.
+        exists bs1, a1, true. split; [reflexivity|]. split; [exact Hfr|]. split; [exact Hlb|].
+        right. split; [reflexivity|]. split; [symmetry; exact Ebs|]. split; [lia|]. split.
+        * rewrite Hl2b, Es, lenN_app, lenN_cons. lia.
+        * rewrite <- Es. exact Hat.
+  Qed.
+End Loops.
+
+(* ====================================================================== *)
+(* K. decodeString on one front-coded item                                 *)
+(* ====================================================================== *)
+(* the ChunkScan holds the C string s, followed by the symbols A handed out in advance *)
+Definition holds_adv (a : ast) (s : str) (A : list N) : Prop :=
+  a_len a = lenN s + 1 /\ a_adv a = lenN A /\ buf_at (a_buf a) 0 (s ++ 0 :: A).
+
+Lemma vb_decode_single l rest : l < 128 -> vb_decode ((l + 128) :: rest) = Some (l, 1).
+Proof.
+  intros H. unfold vb_decode. cbn [vb_decode_from].
+  rewrite (testbit7_big l H), (land127_of_flagged l H), N.shiftl_0_r.
+  unfold W32. rewrite N.mod_small by (assert (2 ^ 7 < 2 ^ 32) by (apply N.pow_lt_mono_r; lia); change (2 ^ 7) with 128 in *; lia).
+  rewrite N.lor_0_l. reflexivity.
+Qed.
+
+Lemma firstN_length_le {A} (n : N) (l : list A) : n <= lenN l -> lenN (firstN n l) = n.
+Proof. intros H. unfold lenN, firstN in *. rewrite firstn_length. lia. Qed.
+
+Lemma buf_at_firstN buf i n l : buf_at buf i l -> buf_at buf i (firstN n l).
+Proof.
+  intros H j x Hj. apply H. unfold nthN, firstN in *.
+  destruct (Nat.lt_ge_cases (N.to_nat j) (N.to_nat n)) as [Hlt|Hge].
+  - rewrite <- (firstn_skipn (N.to_nat n) l). rewrite nth_error_app1; [exact Hj|].
+    assert (nth_error (firstn (N.to_nat n) l) (N.to_nat j) <> None) by congruence.
+    apply nth_error_Some in H0. exact H0.
+  - assert (nth_error (firstn (N.to_nat n) l) (N.to_nat j) = None).
+    { apply nth_error_None. rewrite firstn_length. lia. }
+    congruence.
+Qed.
+
+(* a proper prefix of body ++ [0] ++ A' that is shorter than body ++ [0] is a prefix of body *)
+Lemma prefix_of_body (Acc X body A' : list N) : Acc ++ X = body ++ 0 :: A' -> lenN Acc <= lenN body ->
+  exists R, body = Acc ++ R /\ X = R ++ 0 :: A'.
+Proof.
+  intros E Hl. destruct (app_eq_app _ _ _ _ E) as [w [[E1 E2]|[E1 E2]]].
+  - destruct w as [|z w].
+    + rewrite app_nil_r in E1. subst Acc. exists []. rewrite app_nil_r. split; [reflexivity|]. symmetry. exact E2.
+    + subst Acc. rewrite lenN_app, lenN_cons in Hl. lia.
+  - exists w. split; [exact E1|exact E2].
+Qed.
+
+Section Item.
+  Variables (d : htfc) (cap : N).
+  Hypothesis Hcap : cap < 2 ^ 32.
+  Variables (prev : str) (l : N) (suf : list N).
+  Hypothesis Hprev : nul_free prev.
+  Hypothesis Hl : l <= lenN prev.
+  Hypothesis Hl128 : l < 128.
+  Hypothesis Hsuf : nul_free suf.
+  Hypothesis Hsne : suf <> [].
+
+  Let P := lenN prev + 1.
+  Let body := (l + 128) :: suf.
+  Let item := body ++ [0].
+  Let cur := firstN l prev ++ suf.
+
+  Lemma body_nul_free : nul_free body.
+  Proof. unfold body. apply nul_free_cons. split; [lia|exact Hsuf]. Qed.
+
+  Lemma lenN_suf : 1 <= lenN suf.
+  Proof. destruct suf; [congruence|rewrite lenN_cons; lia]. Qed.
+
+  Lemma lenN_cur : lenN cur = l + lenN suf.
+  Proof. unfold cur. rewrite lenN_app, firstN_length_le by exact Hl. reflexivity. Qed.
+
+  (* the three pieces of the result *)
+  Lemma holds_adv_pieces a A' : a_len a = l + lenN suf + 1 -> a_adv a = lenN A' ->
+    buf_at (a_buf a) 0 (firstN l prev) -> buf_at (a_buf a) l (suf ++ [0]) ->
+    buf_at (a_buf a) (l + lenN suf + 1) A' -> holds_adv a cur A'.
+  Proof.
+    intros H1 H2 H3 H4 H5. unfold holds_adv. rewrite lenN_cur. split; [exact H1|]. split; [exact H2|].
+    unfold cur. rewrite <- app_assoc. apply buf_at_app. split; [exact H3|].
+    rewrite firstN_length_le by exact Hl. rewrite N.add_0_l.
+    change (suf ++ 0 :: A') with (suf ++ [0] ++ A'). rewrite app_assoc. apply buf_at_app. split; [exact H4|].
+    rewrite lenN_app. change (lenN [0]) with 1. replace (l + (lenN suf + 1)) with (l + lenN suf + 1) by lia. exact H5.
+  Qed.
+
+  (* the part of decodeString after the `advanced` test: A (NUL-free, shorter than the item) sits at str[P ..] *)
+  Lemma ds_main_item bs a1 A bs' Afull A' :
+    reads d bs A (lenN item) bs' Afull -> Afull = item ++ A' -> lenN A < lenN item ->
+    a_len a1 = P + lenN A -> a_len a1 <= lenN (a_buf a1) -> a_ext a1 = lenN A ->
+    buf_at (a_buf a1) 0 (prev ++ [0]) -> buf_at (a_buf a1) P A ->
+    P + lenN Afull < cap ->
+    exists a', ds_main d cap P bs a1 = Some (bs', a', l) /\ holds_adv a' cur A'.
+  Proof.
+    intros Hr EA HlA HL HLb Hext Hb0 HbA Hcp.
+    pose proof lenN_suf as Hs1.
+    assert (Hitem : lenN item = lenN suf + 2).
+    { unfold item, body. rewrite lenN_app, lenN_cons. change (lenN [0]) with 1. lia. }
+    assert (HAf : lenN Afull = lenN suf + 2 + lenN A') by (rewrite EA, lenN_app, Hitem; reflexivity).
+    destruct (reads_extends _ _ _ _ _ _ Hr) as [X EX].
+    assert (EX2 : A ++ X = body ++ 0 :: A').
+    { rewrite <- EX, EA. unfold item. rewrite <- app_assoc. reflexivity. }
+    destruct (prefix_of_body A X body A' EX2) as (R & EbR & EXR).
+    { unfold body. rewrite lenN_cons. lia. }
+    assert (HR : nul_free R).
+    { pose proof body_nul_free as Hb. rewrite EbR in Hb. apply nul_free_app in Hb. apply Hb. }
+    assert (Hlb : lenN body = lenN A + lenN R) by (rewrite EbR, lenN_app; reflexivity).
+    assert (Hbl : lenN body = lenN suf + 1) by (unfold body; rewrite lenN_cons; lia).
+    unfold ds_main.
+    destruct (ds_first_spec d cap Hcap bs A (lenN item) bs' Afull Hr R A' a1 P 3)
+      as (bs1 & a2 & fin1 & Ed & Hfr & Hlb2 & Hcase); try assumption; try lia.
+    { rewrite EX, EXR. reflexivity. }
+    rewrite Ed.
+    assert (Hb0' : buf_at (a_buf a2) 0 (prev ++ [0])).
+    { apply (buf_at_frame (a_buf a1)); [exact Hb0|]. intros k _ Hk. apply Hfr.
+      rewrite lenN_app in Hk. change (lenN [0]) with 1 in Hk. unfold P. lia. }
+    assert (HbA' : buf_at (a_buf a2) P A).
+    { apply (buf_at_frame (a_buf a1)); [exact HbA|]. intros k _ Hk. apply Hfr. lia. }
+    assert (Hpre : buf_at (a_buf a2) 0 (firstN l prev)).
+    { apply buf_at_firstN. apply buf_at_app in Hb0'. apply Hb0'. }
+    destruct Hcase as [(-> & New & N1 & N2 & N3 & N4 & N5 & N6)|(-> & -> & F2 & F3 & F4)].
+    - (* the NUL has not been seen yet *)
+      set (Seen := A ++ New) in *.
+      assert (HbS : buf_at (a_buf a2) P Seen).
+      { unfold Seen. apply buf_at_app. split; assumption. }
+      destruct (reads_extends _ _ _ _ _ _ N3) as [X1 EX1].
+      assert (EX3 : Seen ++ X1 = body ++ 0 :: A').
+      { rewrite <- EX1, EA. unfold item. rewrite <- app_assoc. reflexivity. }
+      destruct (prefix_of_body Seen X1 body A' EX3) as (R1 & EbR1 & EXR1); [lia|].
+      assert (HR1 : nul_free R1).
+      { pose proof body_nul_free as Hb. rewrite EbR1 in Hb. apply nul_free_app in Hb. apply Hb. }
+      (* Seen = (l + 128) :: S1 *)
+      destruct Seen as [|v S1] eqn:ESeen; [change (lenN (@nil N)) with 0 in N1; lia|].
+      unfold body in EbR1. cbn [app] in EbR1. inversion EbR1 as [[Ev ES1]]. subst v.
+      rewrite lenN_cons in N1, N2, N4, N5.
+      rewrite N4. rewrite wsub32_small by lia. replace (P + (1 + lenN S1) - P) with (1 + lenN S1) by lia.
+      destruct (N.leb_spec P (lenN (a_buf a2))); [|lia].
+      destruct (buf_at_skipN _ _ _ HbS) as [rest Hrest]. rewrite Hrest. cbn [app].
+      rewrite (vb_decode_single l _ Hl128).
+      replace (1 + lenN S1 - 1) with (lenN S1) by lia.
+      apply buf_at_cons in HbS. destruct HbS as [_ HbS1].
+      assert (HlS : lenN suf = lenN S1 + lenN R1) by (rewrite ES1, lenN_app; reflexivity).
+      destruct (buf_copy_spec (lenN S1) (a_buf a2) cap (P + 1) l S1 ltac:(unfold P; lia) HbS1 eq_refl ltac:(unfold P in *; lia))
+        as (buf2 & Ec & Hat2 & Hfr2 & Hlen2).
+      rewrite Ec. cbn [andb]. rewrite (wu32_small (l + lenN S1)) by (unfold P in *; lia).
+      destruct (ds_rest_spec d cap Hcap bs1 (l + 128 :: S1) (lenN item) bs' Afull N3 R1 A'
+                  {| a_buf := buf2; a_len := l + lenN S1; a_adv := a_adv a2; a_ext := a_ext a2 |}
+                  (l + lenN S1) (S (N.to_nat cap)))
+        as (a' & Er & Hat' & Hfr' & Hl' & Had' & Hlb');
+        try (cbn [a_buf a_len a_ext a_adv]); try assumption; try (rewrite ?lenN_cons; unfold P in *; lia).
+      { rewrite EX1, EXR1. reflexivity. }
+      rewrite Er. exists a'. split; [reflexivity|].
+      apply holds_adv_pieces.
+      + rewrite Hl'. lia.
+      + exact Had'.
+      + apply (buf_at_frame buf2).
+        * apply (buf_at_frame (a_buf a2)); [exact Hpre|]. intros k _ Hk. apply Hfr2.
+          rewrite firstN_length_le in Hk by exact Hl. lia.
+        * intros k _ Hk. apply Hfr'. cbn [a_len]. rewrite firstN_length_le in Hk by exact Hl. lia.
+      + rewrite ES1, <- app_assoc. apply buf_at_app. split.
+        * apply (buf_at_frame buf2); [exact Hat2|]. intros k _ Hk. apply Hfr'. lia.
+        * change (R1 ++ 0 :: A') with (R1 ++ [0] ++ A') in Hat'. rewrite app_assoc in Hat'.
+          apply buf_at_app in Hat'. apply Hat'.
+      + replace (l + lenN suf + 1) with (l + lenN S1 + lenN (R1 ++ [0])) by (rewrite lenN_app; change (lenN [0]) with 1; lia).
+        change (R1 ++ 0 :: A') with (R1 ++ [0] ++ A') in Hat'. rewrite app_assoc in Hat'.
+        apply buf_at_app in Hat'. apply Hat'.
+    - (* the first loop already reached the NUL *)
+      assert (HbI : buf_at (a_buf a2) P (body ++ 0 :: A')).
+      { rewrite EbR, <- app_assoc. apply buf_at_app. split; assumption. }
+      rewrite F2. rewrite wsub32_small by lia. replace (P + lenN item - P) with (lenN item) by lia.
+      destruct (N.leb_spec P (lenN (a_buf a2))); [|lia].
+      destruct (buf_at_skipN _ _ _ HbI) as [rest Hrest]. rewrite Hrest. unfold body at 1. cbn [app].
+      rewrite (vb_decode_single l _ Hl128). rewrite Hitem.
+      replace (lenN suf + 2 - 1) with (lenN (suf ++ [0])) by (rewrite lenN_app; change (lenN [0]) with 1; lia).
+      unfold body in HbI. cbn [app] in HbI. apply buf_at_cons in HbI. destruct HbI as [_ HbI].
+      change (suf ++ 0 :: A') with (suf ++ [0] ++ A') in HbI. rewrite app_assoc in HbI.
+      apply buf_at_app in HbI. destruct HbI as [HbS HbA2].
+      assert (Hls0 : lenN (suf ++ [0]) = lenN suf + 1) by (rewrite lenN_app; reflexivity).
+      destruct (buf_copy_spec (lenN (suf ++ [0])) (a_buf a2) cap (P + 1) l (suf ++ [0]) ltac:(unfold P; lia) HbS eq_refl
+                  ltac:(unfold P in *; lia)) as (buf2 & Ec & Hat2 & Hfr2 & Hlen2).
+      rewrite Ec. cbn [andb]. rewrite Hls0. rewrite (wu32_small (l + (lenN suf + 1))) by (unfold P in *; lia).
+      rewrite F3.
+      assert (HbA3 : buf_at buf2 (P + 1 + (lenN suf + 1)) A').
+      { rewrite Hls0 in HbA2. apply (buf_at_frame (a_buf a2)); [exact HbA2|]. intros k Hk _. apply Hfr2. unfold P in *. lia. }
+      destruct (N.ltb_spec 0 (lenN A')) as [Hpos|Hzero].
+      + replace (P + (lenN suf + 2)) with (P + 1 + (lenN suf + 1)) by lia.
+        destruct (buf_copy_spec (lenN A') buf2 cap (P + 1 + (lenN suf + 1)) (l + (lenN suf + 1)) A'
+                    ltac:(unfold P; lia) HbA3 eq_refl ltac:(unfold P in *; lia)) as (buf3 & Ec3 & Hat3 & Hfr3 & Hlen3).
+        rewrite Ec3. rewrite ds_rest_eq. eexists. split; [reflexivity|].
+        apply holds_adv_pieces; cbn [a_buf a_len a_adv].
+        * lia.
+        * reflexivity.
+        * apply (buf_at_frame buf2).
+          -- apply (buf_at_frame (a_buf a2)); [exact Hpre|]. intros k _ Hk. apply Hfr2.
+             rewrite firstN_length_le in Hk by exact Hl. lia.
+          -- intros k _ Hk. apply Hfr3. rewrite firstN_length_le in Hk by exact Hl. lia.
+        * apply (buf_at_frame buf2); [exact Hat2|]. intros k _ Hk. apply Hfr3. lia.
+        * replace (l + lenN suf + 1) with (l + (lenN suf + 1)) by lia. exact Hat3.
+      + rewrite ds_rest_eq. eexists. split; [reflexivity|].
+        assert (A' = []) by (destruct A'; [reflexivity|rewrite lenN_cons in Hzero; lia]). subst A'.
+        apply holds_adv_pieces; cbn [a_buf a_len a_adv].
+        * lia.
+        * reflexivity.
+        * apply (buf_at_frame (a_buf a2)); [exact Hpre|]. intros k _ Hk. apply Hfr2.
+          rewrite firstN_length_le in Hk by exact Hl. lia.
+        * exact Hat2.
+        * apply buf_at_nil.
+  Qed.
+End Item.
+
+Lemma take0_app_nul_free a r : nul_free a -> take0 (a ++ 0 :: r) = Some a.
+Proof. apply take0_spec. Qed.
+
+(* StatCoder::decodeString on the item  VByte(l) ++ suf ++ NUL  (l < 128):  the table entries read from bit
+   state bs, together with the symbols A handed out in advance, start with the item; the rest A' is handed
+   out in advance to the next call *)
+Theorem decode_string_item d cap prev l suf bs a A bs' Afull A' :
+  cap < 2 ^ 32 -> nul_free prev -> l <= lenN prev -> l < 128 -> nul_free suf -> suf <> [] ->
+  holds_adv a prev A ->
+  reads d bs A (lenN (((l + 128) :: suf) ++ [0])) bs' Afull -> Afull = (((l + 128) :: suf) ++ [0]) ++ A' ->
+  lenN prev + 1 + lenN Afull < cap ->
+  exists a', decode_string d cap bs a = Some (bs', a', l) /\ holds_adv a' (firstN l prev ++ suf) A'.
+Proof.
+  intros Hcap Hprev Hl Hl128 Hsuf Hsne (HL & Hadv & Hbuf) Hr EA Hcp.
+  set (P := lenN prev + 1) in *.
+  assert (Hs1 : 1 <= lenN suf) by (destruct suf; [congruence|rewrite lenN_cons; lia]).
+  assert (Hitem : lenN (((l + 128) :: suf) ++ [0]) = lenN suf + 2).
+  { rewrite lenN_app, lenN_cons. change (lenN [0]) with 1. lia. }
+  assert (HAf : lenN Afull = lenN suf + 2 + lenN A') by (rewrite EA, lenN_app, Hitem; reflexivity).
+  destruct (reads_extends _ _ _ _ _ _ Hr) as [X EX].
+  assert (HlA : lenN A <= lenN Afull) by (rewrite EX, lenN_app; lia).
+  change (prev ++ 0 :: A) with (prev ++ [0] ++ A) in Hbuf. rewrite app_assoc in Hbuf.
+  apply buf_at_app in Hbuf. destruct Hbuf as [Hb0 HbA]. rewrite lenN_app in HbA. change (lenN [0]) with 1 in HbA.
+  rewrite N.add_0_l in HbA. fold P in HbA.
+  assert (Hblen : P <= lenN (a_buf a)).
+  { destruct (buf_at_len _ _ _ Hb0) as [H|H]; [rewrite lenN_app in H; change (lenN [0]) with 1 in H; unfold P; lia|].
+    destruct prev; discriminate. }
+  unfold decode_string. rewrite HL, Hadv. fold P.
+  destruct (N.eqb_spec (lenN A) 0) as [EA0|NA0]; cbn [negb].
+  - (* nothing was handed out in advance *)
+    assert (A = []) by (destruct A; [reflexivity|rewrite lenN_cons in EA0; lia]). subst A.
+    apply (ds_main_item d cap Hcap prev l suf Hl Hl128 Hsuf Hsne bs _ [] bs' Afull A'); cbn [a_buf a_len a_ext];
+      try assumption; try (change (lenN (@nil N)) with 0; lia).
+  - (* c->str[prevLen + c->advanced] = 0 *)
+    assert (HAlen : P + lenN A <= lenN (a_buf a)).
+    { destruct (buf_at_len _ _ _ HbA) as [H|H]; [exact H|]. subst A. change (lenN (@nil N)) with 0 in NA0. lia. }
+    destruct (buf_write_spec (a_buf a) cap (P + lenN A) 0 HAlen ltac:(lia)) as (buf1 & Ew & Hz & Hfr1 & Hlen1).
+    rewrite Ew.
+    assert (Hb0' : buf_at buf1 0 (prev ++ [0])).
+    { apply (buf_at_frame (a_buf a)); [exact Hb0|]. intros k _ Hk. apply Hfr1.
+      rewrite lenN_app in Hk. change (lenN [0]) with 1 in Hk. unfold P. lia. }
+    assert (HbA' : buf_at buf1 P (A ++ [0])).
+    { apply buf_at_app. split.
+      - apply (buf_at_frame (a_buf a)); [exact HbA|]. intros k _ Hk. apply Hfr1. lia.
+      - apply buf_at_cons. split; [exact Hz|apply buf_at_nil]. }
+    destruct (buf_at_skipN _ _ _ HbA') as [rest Hrest].
+    unfold buf_strlen. destruct (N.leb_spec P (lenN buf1)); [|lia]. rewrite Hrest.
+    destruct (N.le_gt_cases (lenN suf + 2) (lenN A)) as [Hin|Hout].
+    + (* the whole item was handed out in advance *)
+      destruct (reads_done_inv _ _ _ _ _ _ Hr ltac:(lia)) as [Ebs EAA]. subst bs'. rewrite EAA in EA. subst A.
+      clear Hr EX HlA EAA.
+      assert (Hnb : nul_free ((l + 128) :: suf)) by (apply nul_free_cons; split; [lia|exact Hsuf]).
+      assert (Hlb : lenN ((l + 128) :: suf) = lenN suf + 1) by (rewrite lenN_cons; lia).
+      assert (Enorm : ((((l + 128 :: suf) ++ [0]) ++ A') ++ [0]) ++ rest = (l + 128 :: suf) ++ 0 :: (A' ++ [0] ++ rest))
+        by (rewrite <- !app_assoc; reflexivity).
+      rewrite Enorm in Hrest. rewrite Enorm. clear Enorm.
+      rewrite (take0_app_nul_free _ _ Hnb). cbn [option_map]. rewrite Hlb.
+      assert (HlAA : lenN (((l + 128 :: suf) ++ [0]) ++ A') = lenN suf + 2 + lenN A') by (rewrite lenN_app, Hitem; reflexivity).
+      rewrite HlAA in *.
+      destruct (N.ltb_spec (lenN suf + 1) (lenN suf + 2 + lenN A')); [|lia].
+      destruct (N.ltb_spec 0 (lenN suf + 1)); [|lia]. cbn [andb].
+      cbn [app]. rewrite (vb_decode_single l _ Hl128).
+      assert (Hls0 : lenN (suf ++ [0]) = lenN suf + 1) by (rewrite lenN_app; reflexivity).
+      replace (P + (lenN suf + 1) + 1 - (P + 1)) with (lenN (suf ++ [0])) by lia.
+      (* the pieces of buf1 *)
+      assert (Epieces : (((l + 128 :: suf) ++ [0]) ++ A') ++ [0] = [l + 128] ++ (suf ++ [0]) ++ A' ++ [0])
+        by (cbn [app]; rewrite <- !app_assoc; reflexivity).
+      rewrite Epieces in HbA'. clear Epieces.
+      apply buf_at_app in HbA'. destruct HbA' as [_ HbA'].
+      change (lenN [l + 128]) with 1 in HbA'.
+      apply buf_at_app in HbA'. destruct HbA' as [HbS HbA2].
+      apply buf_at_app in HbA2. destruct HbA2 as [HbA2 _].
+      destruct (buf_copy_spec (lenN (suf ++ [0])) buf1 cap (P + 1) l (suf ++ [0]) ltac:(unfold P; lia) HbS eq_refl
+                  ltac:(unfold P in *; lia)) as (buf2 & Ec & Hat2 & Hfr2 & Hlen2).
+      rewrite Ec. rewrite Hls0. rewrite (wu32_small (l + (lenN suf + 1))) by (unfold P in *; lia).
+      assert (Hpre : buf_at buf2 0 (firstN l prev)).
+      { apply (buf_at_frame buf1).
+        - apply buf_at_firstN. apply buf_at_app in Hb0'. apply Hb0'.
+        - intros k _ Hk. apply Hfr2. rewrite firstN_length_le in Hk by exact Hl. lia. }
+      destruct (N.eqb_spec (lenN suf + 1 + 1) (lenN suf + 2 + lenN A')) as [Eeq|Eneq]; cbn [negb].
+      * assert (A' = []) by (destruct A'; [reflexivity|rewrite lenN_cons in Eeq; lia]). subst A'.
+        eexists. split; [reflexivity|].
+        apply (holds_adv_pieces cap Hcap prev l suf Hl Hl128); cbn [a_buf a_len a_adv]; try assumption; try lia.
+        apply buf_at_nil.
+      * replace (lenN suf + 2 + lenN A' - (lenN suf + 1 + 1)) with (lenN A') by lia.
+        assert (HbA3 : buf_at buf2 (P + (lenN suf + 1) + 1) A').
+        { apply (buf_at_frame buf1).
+          - rewrite Hls0 in HbA2. replace (P + (lenN suf + 1) + 1) with (P + 1 + (lenN suf + 1)) by lia. exact HbA2.
+          - intros k Hk _. apply Hfr2. unfold P in *. lia. }
+        destruct (buf_copy_spec (lenN A') buf2 cap (P + (lenN suf + 1) + 1) (l + (lenN suf + 1)) A'
+                    ltac:(unfold P; lia) HbA3 eq_refl ltac:(unfold P in *; lia)) as (buf3 & Ec3 & Hat3 & Hfr3 & Hlen3).
+        rewrite Ec3. eexists. split; [reflexivity|].
+        apply (holds_adv_pieces cap Hcap prev l suf Hl Hl128); cbn [a_buf a_len a_adv]; try lia.
+        -- apply (buf_at_frame buf2); [exact Hpre|]. intros k _ Hk. apply Hfr3.
+           rewrite firstN_length_le in Hk by exact Hl. lia.
+        -- apply (buf_at_frame buf2); [exact Hat2|]. intros k _ Hk. apply Hfr3. lia.
+        -- replace (l + lenN suf + 1) with (l + (lenN suf + 1)) by lia. exact Hat3.
+    + (* A is a proper prefix of the item: NUL-free *)
+      assert (EX2 : A ++ X = ((l + 128) :: suf) ++ 0 :: A').
+      { rewrite <- EX, EA. rewrite <- app_assoc. reflexivity. }
+      destruct (prefix_of_body A X ((l + 128) :: suf) A' EX2) as (R & EbR & EXR); [rewrite lenN_cons; lia|].
+      assert (HnA : nul_free A).
+      { assert (Hb : nul_free ((l + 128) :: suf)) by (apply nul_free_cons; split; [lia|exact Hsuf]).
+        rewrite EbR in Hb. apply nul_free_app in Hb. apply Hb. }
+      rewrite <- app_assoc. cbn [app]. rewrite take0_app_nul_free by exact HnA. cbn [option_map].
+      rewrite N.ltb_irrefl. cbn [andb].
+      rewrite (wu32_small (P + lenN A)) by lia.
+      apply (ds_main_item d cap Hcap prev l suf Hl Hl128 Hsuf Hsne bs _ A bs' Afull A'); cbn [a_buf a_len a_ext];
+        try assumption; try lia.
+      * apply buf_at_app in HbA'. apply HbA'.
+Qed.
+
+(* ====================================================================== *)
+(* L. the second checker is sound                                          *)
+(* ====================================================================== *)
+Lemma hprefix_eqb_skip a t : hprefix_eqb a t = true -> t = a ++ skipN (lenN a) t.
+Proof.
+  intros H. destruct (hprefix_eqb_sound _ _ H) as [r Hr]. rewrite Hr at 1. f_equal.
+  rewrite Hr. unfold skipN, lenN. rewrite Nat2N.id, skipn_app, skipn_all, Nat.sub_diag. reflexivity.
+Qed.
+
+Lemma nul_free_b_sound s : forallb (fun c => negb (c =? 0)) s = true -> nul_free s.
+Proof.
+  intros H. apply Forall_forall. intros c Hc. rewrite forallb_forall in H. specialize (H c Hc).
+  apply negb_true_iff, N.eqb_neq in H. exact H.
+Qed.
+
+Lemma holds_adv_holds a s A : holds_adv a s A -> lenN s + 1 < 2 ^ 32 -> holds a s.
+Proof.
+  intros (H1 & H2 & H3) Hlt. split; [exact H1|]. split; [exact Hlt|].
+  destruct (buf_at_0_prefix _ _ H3) as [rest Hr]. exists (A ++ rest). rewrite Hr, <- app_assoc. reflexivity.
+Qed.
+
+Lemma holds_holds_adv a s : holds a s -> a_adv a = 0 -> holds_adv a s [].
+Proof.
+  intros (H1 & H2 & r & H3) Ha. split; [exact H1|]. split; [exact Ha|].
+  rewrite H3. intros j x Hj. rewrite N.add_0_l.
+  replace (s ++ 0 :: r) with ((s ++ [0]) ++ r) by (rewrite <- app_assoc; reflexivity).
+  rewrite nthN_app_l; [exact Hj|]. apply nthN_Some_lt in Hj. exact Hj.
+Qed.
+
+Lemma hitem_chain_cons d b i prev s r pst e :
+  hitem_ok d b i prev s pst e ->
+  (exists tr', length tr' = length r /\
+     forall j, (j < length r)%nat ->
+       hitem_ok d b (i + 1 + N.of_nat j) (nth j (s :: r) []) (nth j r []) (nth j (e :: tr') st0_dummy) (nth j tr' st0_dummy)) ->
+  exists tr, length tr = length (s :: r) /\
+     forall j, (j < length (s :: r))%nat ->
+       hitem_ok d b (i + N.of_nat j) (nth j (prev :: s :: r) []) (nth j (s :: r) []) (nth j (pst :: tr) st0_dummy) (nth j tr st0_dummy).
+Proof.
+  intros He (tr' & Hl & Hit). exists (e :: tr'). split; [cbn [length]; lia|].
+  intros j Hj. destruct j as [|j].
+  - cbn [nth]. rewrite N.add_0_r. exact He.
+  - cbn [length] in Hj. specialize (Hit j ltac:(lia)).
+    replace (i + N.of_nat (Datatypes.S j)) with (i + 1 + N.of_nat j) by lia.
+    change (nth (Datatypes.S j) (prev :: s :: r) []) with (nth j (s :: r) []).
+    change (nth (Datatypes.S j) (s :: r) []) with (nth j r []).
+    change (nth (Datatypes.S j) (pst :: e :: tr') st0_dummy) with (nth j (e :: tr') st0_dummy).
+    change (nth (Datatypes.S j) (e :: tr') st0_dummy) with (nth j tr' st0_dummy).
+    exact Hit.
+Qed.
+
+Lemma lcp_lt_suffix_ne (prev s : str) : lcp prev s < lenN s -> skipN (lcp prev s) s <> [].
+Proof.
+  intros H E. apply (f_equal lenN) in E. rewrite lenN_skipN in E. change (lenN (@nil N)) with 0 in E. lia.
+Qed.
+
+Lemma hchain_from_sound d b : str_cap d < 2 ^ 32 -> h_maxlength d < 2 ^ 29 -> forall ss i prev bs A pst,
+  hchain_from d b i prev bs A ss = true ->
+  (i mod b <> 0 -> fst pst = bs /\ holds_adv (snd pst) prev A /\ nul_free prev) ->
+  exists tr, length tr = length ss /\
+    forall j, (j < length ss)%nat ->
+      hitem_ok d b (i + N.of_nat j) (nth j (prev :: ss) []) (nth j ss []) (nth j (pst :: tr) st0_dummy) (nth j tr st0_dummy).
+Proof.
+  intros Hcap Hml. induction ss as [|s r IH]; intros i prev bs A pst H Hpst; cbn [hchain_from] in H.
+  - exists []. split; [reflexivity|]. intros j Hj. cbn [length] in Hj. lia.
+  - apply andb_true_iff in H. destruct H as [H0 H]. apply andb_true_iff in H0. destruct H0 as [Hlen Hnf].
+    apply N.ltb_lt in Hlen. apply nul_free_b_sound in Hnf.
+    destruct (i mod b =? 0) eqn:Em.
+    + rewrite rdN_nthN in H.
+      destruct (nthN (h_bl d) (i / b + 1)) as [off|] eqn:Eo; [|discriminate].
+      destruct (pack_string (h_cw d) (s ++ [0])) as [[enc o]|] eqn:Ep; [|discriminate].
+      destruct (decode_header d (i / b + 1)) as [st0|] eqn:Eh; [|discriminate].
+      destruct (reset_scan d (i / b + 1) st0) as [st1|] eqn:Er; [|discriminate].
+      apply andb_true_iff in H. destruct H as [Hc Hrec]. apply andb_true_iff in Hc. destruct Hc as [Hc Hast].
+      apply andb_true_iff in Hc. destruct Hc as [Hle Hpre].
+      apply N.leb_le in Hle. destruct (hprefix_eqb_sound _ _ Hpre) as [rest Hrest].
+      apply ast_is_sound in Hast.
+      pose proof (reset_scan_holds _ _ _ _ _ Er Hast) as Hh1.
+      apply (hitem_chain_cons d b i prev s r pst st1).
+      * unfold hitem_ok. rewrite Em. split; [exact Hh1|].
+        exists off, enc, o, rest, st0. repeat split; assumption.
+      * apply (IH (i + 1) s (fst st1) [] st1 Hrec). intros _. split; [reflexivity|]. split; [|exact Hnf].
+        apply holds_holds_adv; [exact Hh1|].
+        unfold reset_scan in Er. destruct st0 as [b0 a0]. destruct (rdN (h_bl d) (i / b + 1 + 1)); [|discriminate].
+        inversion Er; subst. reflexivity.
+    + apply N.eqb_neq in Em. destruct (Hpst Em) as (Ebs & Hha & Hnp). subst bs.
+      set (l := lcp prev s) in *. set (suf := skipN l s) in *.
+      apply andb_true_iff in H. destruct H as [Hc H]. apply andb_true_iff in Hc. destruct Hc as [Hl128 Hlt].
+      apply N.ltb_lt in Hl128, Hlt.
+      destruct (item_walk (S (length ((l + 128) :: suf ++ [0]))) d (fst pst) A (lenN ((l + 128) :: suf ++ [0])))
+        as [[bs' Afull]|] eqn:Ew; [|discriminate].
+      apply andb_true_iff in H. destruct H as [Hc Hrec]. apply andb_true_iff in Hc. destruct Hc as [Hpre Hcp].
+      apply N.ltb_lt in Hcp. apply item_walk_sound in Ew.
+      pose proof (hprefix_eqb_skip _ _ Hpre) as EAf.
+      set (A' := skipN (lenN ((l + 128) :: suf ++ [0])) Afull) in *.
+      destruct (decode_string_item d (str_cap d) prev l suf (fst pst) (snd pst) A bs' Afull A' Hcap Hnp
+                  (lcp_le_l prev s) Hl128 (nul_free_skipn _ _ Hnf) (lcp_lt_suffix_ne prev s Hlt) Hha Ew EAf Hcp)
+        as (a' & Ed & Hh').
+      assert (Ecur : firstN l prev ++ suf = s) by (unfold suf, l; apply lcp_rebuild).
+      rewrite Ecur in Hh'.
+      apply (hitem_chain_cons d b i prev s r pst (bs', a')).
+      * unfold hitem_ok. destruct (N.eqb_spec (i mod b) 0); [contradiction|]. cbn [fst snd].
+        split; [|exact Ed]. apply (holds_adv_holds _ _ _ Hh'). lia.
+      * apply (IH (i + 1) s bs' A' (bs', a') Hrec). intros _. cbn [fst snd]. split; [reflexivity|]. split; assumption.
+Qed.
+
+Theorem htfc_check2_sound S d : htfc_check2 S d = true -> htfc_ok d (h_bsize d) S.
+Proof.
+  unfold htfc_check2. intros H.
+  repeat (apply andb_true_iff in H; let H' := fresh "C" in destruct H as [H H']).
+  apply N.leb_le in H. apply N.ltb_lt in C7, C5, C2. apply N.eqb_eq in C6, C4, C3.
+  unfold code_chk in C1.
+  repeat (apply andb_true_iff in C1; let H' := fresh "K" in destruct C1 as [C1 H']).
+  apply N.eqb_eq in C1.
+  split; [reflexivity|]. split; [exact H|]. split; [exact C7|]. split; [exact C6|]. split; [exact C5|].
+  split; [exact C4|]. split; [exact C3|].
+  split.
+  { split; [exact C1|]. split; [exact K2|]. split; [exact K1|]. split; [exact K0|].
+    apply Forall_forall. intros c Hc. rewrite forallb_forall in K. specialize (K c Hc). apply N.ltb_lt in K. exact K. }
+  split.
+  { apply Forall_forall. intros x Hx. rewrite forallb_forall in C0. specialize (C0 x Hx). apply N.ltb_lt in C0. exact C0. }
+  assert (Hcap : str_cap d < 2 ^ 32).
+  { unfold str_cap. rewrite C3. assert (E32 : 2 ^ 32 = 4294967296) by reflexivity.
+    assert (E30 : 2 ^ 29 = 536870912) by reflexivity. rewrite E30 in C2. rewrite E32. lia. }
+  destruct (hchain_from_sound d (h_bsize d) Hcap C2 S 0 [] (fst st0_dummy) [] st0_dummy C) as (tr & Hl & Hit).
+  { intros Hne. exfalso. apply Hne. destruct (h_bsize d); reflexivity. }
+  exists (fun k => nth (N.to_nat k) tr st0_dummy). intros i Hi.
+  specialize (Hit (N.to_nat i) ltac:(unfold lenN in Hi; lia)).
+  rewrite N.add_0_l, N2Nat.id in Hit. fold (snth S i) in Hit.
+  destruct (N.eq_dec i 0) as [->|Hne].
+  - eapply hitem_ok_first. exact Hit.
+  - replace (N.to_nat i) with (Datatypes.S (N.to_nat (i - 1))) in Hit at 1 2 by lia.
+    cbn [nth] in Hit. exact Hit.
+Qed.
+
+(* ====================================================================== *)
+(* F. the theorems in the form the harness instantiates                    *)
+(* ====================================================================== *)
+Lemma valid_set_facts S : valid_set S -> S <> [] /\ Forall nul_free S /\ sorted_lt S.
+Proof.
+  intros (Hne & Hv & Hs). split; [exact Hne|]. split; [|exact Hs].
+  apply Forall_forall. intros s Hin. rewrite Forall_forall in Hv. destruct (Hv s Hin) as [_ Hb].
+  unfold nul_free. eapply Forall_impl; [|exact Hb]. intros c [Hc _]. lia.
+Qed.
+
+Theorem htfc_extract_ok d b S : htfc_ok d b S -> S <> [] -> Forall nul_free S -> sorted_lt S ->
+  forall id, htfc_extract d id = Some (spec_extract S id).
+Proof.
+  intros (Hbs & Hb2 & Hb32 & Hel & Hn32 & Hbk & Hk & Hcode & Htext & St & HSt) Hne Hnf Hsort id.
+  apply (htfc_extract_stream d b S St); assumption.
+Qed.
+
+Theorem htfc_locate_ok d b S : htfc_ok d b S -> S <> [] -> Forall nul_free S -> sorted_lt S ->
+  forall q, nul_free q -> Forall (fun c => c < 256) q -> htfc_locate d q = Some (spec_locate S q).
+Proof.
+  intros (Hbs & Hb2 & Hb32 & Hel & Hn32 & Hbk & Hk & Hcode & Htext & St & HSt) Hne Hnf Hsort q Hq Hq256.
+  apply (htfc_locate_stream d b S St); assumption.
+Qed.
+
+(* every object certified by the checker answers extract / locate like the specification *)
+Theorem htfc_extract_spec S d : valid_set S -> htfc_check S d = true ->
+  forall id, htfc_extract d id = Some (spec_extract S id).
+Proof.
+  intros HV HC. destruct (valid_set_facts S HV) as (Hne & Hnf & Hsort).
+  exact (htfc_extract_ok d _ S (htfc_check_sound S d HC) Hne Hnf Hsort).
+Qed.
+
+Theorem htfc_locate_spec S d : valid_set S -> htfc_check S d = true ->
+  forall q, nul_free q -> Forall (fun c => c < 256) q -> htfc_locate d q = Some (spec_locate S q).
+Proof.
+  intros HV HC. destruct (valid_set_facts S HV) as (Hne & Hnf & Hsort).
+  exact (htfc_locate_ok d _ S (htfc_check_sound S d HC) Hne Hnf Hsort).
+Qed.
+
+(* the same for objects certified by the second checker, which does not run decodeString *)
+Theorem htfc_extract_spec2 S d : valid_set S -> htfc_check2 S d = true ->
+  forall id, htfc_extract d id = Some (spec_extract S id).
+Proof.
+  intros HV HC. destruct (valid_set_facts S HV) as (Hne & Hnf & Hsort).
+  exact (htfc_extract_ok d _ S (htfc_check2_sound S d HC) Hne Hnf Hsort).
+Qed.
+
+Theorem htfc_locate_spec2 S d : valid_set S -> htfc_check2 S d = true ->
+  forall q, nul_free q -> Forall (fun c => c < 256) q -> htfc_locate d q = Some (spec_locate S q).
+Proof.
+  intros HV HC. destruct (valid_set_facts S HV) as (Hne & Hnf & Hsort).
+  exact (htfc_locate_ok d _ S (htfc_check2_sound S d HC) Hne Hnf Hsort).
+Qed.
+
+Lemma valid_set_bytes S : valid_set S -> Forall (Forall (fun c => c < 256)) S.
+Proof.
+  intros (_ & Hv & _). apply Forall_forall. intros s Hin. rewrite Forall_forall in Hv. destruct (Hv s Hin) as [_ Hb].
+  eapply Forall_impl; [|exact Hb]. intros c [_ Hc]. lia.
+Qed.
+
+(* round trips: locate (extract id) = id for every valid id, extract (locate s) = s for every member *)
+Theorem htfc_roundtrip S d : valid_set S -> htfc_check S d = true \/ htfc_check2 S d = true ->
+  (forall id, 1 <= id <= lenN S -> exists s, htfc_extract d id = Some (Some s) /\ htfc_locate d s = Some id) /\
+  (forall s, In s S -> exists id, htfc_locate d s = Some id /\ htfc_extract d id = Some (Some s)).
+Proof.
+  intros HV HC. destruct (valid_set_facts S HV) as (Hne & Hnf & Hsort).
+  pose proof (valid_set_bytes S HV) as Hby.
+  assert (Hok : htfc_ok d (h_bsize d) S) by (destruct HC; [apply htfc_check_sound|apply htfc_check2_sound]; assumption).
+  rewrite Forall_forall in Hnf, Hby.
+  split.
+  - intros id Hid. destruct (spec_extract_in_range S id Hid) as (s & Es & Hin).
+    exists s. rewrite (htfc_extract_ok d _ S Hok Hne ltac:(apply Forall_forall; exact Hnf) Hsort id), Es.
+    split; [reflexivity|].
+    rewrite (htfc_locate_ok d _ S Hok Hne ltac:(apply Forall_forall; exact Hnf) Hsort s (Hnf s Hin) (Hby s Hin)).
+    f_equal. apply spec_locate_extract; [apply sorted_NoDup; exact Hsort|exact Es].
+  - intros s Hin. exists (spec_locate S s).
+    rewrite (htfc_locate_ok d _ S Hok Hne ltac:(apply Forall_forall; exact Hnf) Hsort s (Hnf s Hin) (Hby s Hin)).
+    split; [reflexivity|].
+    rewrite (htfc_extract_ok d _ S Hok Hne ltac:(apply Forall_forall; exact Hnf) Hsort).
+    rewrite (spec_extract_locate S s Hin). reflexivity.
+Qed.
+
+(* memory safety: no query of a certified object reads outside textStrings / stream / blStrings / codewords /
+   the scratch buffer's initialised part, writes outside the scratch buffer, or runs out of fuel
+   (every such event is [None] in the model) *)
+Theorem htfc_no_oob S d : valid_set S -> htfc_check S d = true \/ htfc_check2 S d = true ->
+  (forall id, htfc_extract d id <> None) /\
+  (forall q, nul_free q -> Forall (fun c => c < 256) q -> htfc_locate d q <> None).
+Proof.
+  intros HV HC. destruct (valid_set_facts S HV) as (Hne & Hnf & Hsort).
+  assert (Hok : htfc_ok d (h_bsize d) S) by (destruct HC; [apply htfc_check_sound|apply htfc_check2_sound]; assumption).
+  split.
+  - intros id. rewrite (htfc_extract_ok d _ S Hok Hne Hnf Hsort id). discriminate.
+  - intros q Hq Hq2. rewrite (htfc_locate_ok d _ S Hok Hne Hnf Hsort q Hq Hq2). discriminate.
+Qed.
+
+(* ====================================================================== *)
+(* M. two objects dumped from the real constructor + save + load            *)
+(* ====================================================================== *)
+(* hx_usa: S = {alabama, alaska, arizona, arkansas, california, colorado, connecticut, delaware}, bucketsize 3
+   hx_r128c: S = {a^128, a^129, a^130}, bucketsize 3: the in-bucket shared prefix 128 has the VByte 00 81, whose
+   first byte the decoder takes for the end of a string (known finding ht-front-coding-lcp-ge-128) *)
+Definition hx_usa_S : list str := [[97; 108; 97; 98; 97; 109; 97]; [97; 108; 97; 115; 107; 97]; [97; 114; 105; 122; 111; 110; 97]; [97; 114; 107; 97; 110; 115; 97; 115]; [99; 97; 108; 105; 102; 111; 114; 110; 105; 97]; [99; 111; 108; 111; 114; 97; 100; 111]; [99; 111; 110; 110; 101; 99; 116; 105; 99; 117; 116]; [100; 101; 108; 97; 119; 97; 114; 101]].
+Definition hx_usa_d : htfc :=
+  {| h_elements := 8; h_maxlength := 12; h_maxcomplength := 14; h_buckets := 3; h_bsize := 3;
+     h_text := [66; 228; 36; 66; 244; 0; 131; 109; 106; 1; 1; 170; 175; 12; 176; 128; 0; 67; 85; 168; 97; 180; 54; 0; 126; 149; 11; 149; 80; 203; 86; 21; 64; 32; 50; 185; 150; 168; 76; 200; 0; 74; 203; 12; 39; 74; 225; 84; 174; 78; 0; 126; 153; 58; 228; 58; 67; 84; 224; 0];
+     h_bl := [0; 0; 17; 41; 60];
+     h_cw := [(0, 5); (16, 9); (17, 9); (18, 9); (19, 9); (20, 9); (21, 9); (22, 9); (23, 9); (24, 9); (25, 9); (26, 9); (27, 9); (28, 9); (29, 9); (30, 9); (31, 9); (32, 9); (33, 9); (34, 9); (35, 9); (36, 9); (37, 9); (38, 9); (39, 9); (40, 9); (41, 9); (42, 9); (43, 9); (44, 9); (45, 9); (46, 9); (47, 9); (48, 9); (49, 9); (50, 9); (51, 9); (52, 9); (53, 9); (54, 9); (55, 9); (56, 9); (57, 9); (58, 9); (59, 9); (60, 9); (61, 9); (62, 9); (63, 9); (64, 9); (65, 9); (66, 9); (67, 9); (68, 9); (69, 9); (70, 9); (71, 9); (72, 9); (73, 9); (74, 9); (75, 9); (76, 9); (77, 9); (78, 9); (79, 9); (80, 9); (81, 9); (82, 9); (83, 9); (84, 9); (85, 9); (86, 9); (87, 9); (88, 9); (89, 9); (90, 9); (91, 9); (92, 9); (93, 9); (94, 9); (95, 9); (48, 8); (49, 8); (50, 8); (51, 8); (52, 8); (53, 8); (54, 8); (55, 8); (56, 8); (57, 8); (58, 8); (59, 8); (60, 8); (61, 8); (62, 8); (63, 8); (8, 5); (36, 7); (37, 7); (38, 7); (39, 7); (40, 7); (82, 8); (83, 8); (21, 6); (44, 7); (45, 7); (46, 7); (47, 7); (24, 6); (25, 6); (104, 8); (105, 8); (53, 7); (27, 6); (56, 7); (114, 8); (115, 8); (58, 7); (118, 8); (119, 8); (120, 8); (121, 8); (122, 8); (123, 8); (124, 8); (125, 8); (63, 7); (64, 7); (130, 8); (131, 8); (132, 8); (133, 8); (134, 8); (135, 8); (136, 8); (137, 8); (138, 8); (139, 8); (140, 8); (141, 8); (142, 8); (143, 8); (144, 8); (145, 8); (146, 8); (147, 8); (148, 8); (149, 8); (150, 8); (151, 8); (152, 8); (153, 8); (154, 8); (155, 8); (156, 8); (157, 8); (158, 8); (159, 8); (160, 8); (161, 8); (162, 8); (163, 8); (164, 8); (165, 8); (166, 8); (167, 8); (168, 8); (169, 8); (170, 8); (171, 8); (172, 8); (173, 8); (174, 8); (175, 8); (176, 8); (177, 8); (178, 8); (179, 8); (180, 8); (181, 8); (182, 8); (183, 8); (184, 8); (185, 8); (186, 8); (187, 8); (188, 8); (189, 8); (190, 8); (191, 8); (192, 8); (193, 8); (194, 8); (195, 8); (196, 8); (197, 8); (198, 8); (199, 8); (200, 8); (201, 8); (202, 8); (203, 8); (204, 8); (205, 8); (206, 8); (207, 8); (208, 8); (209, 8); (210, 8); (211, 8); (212, 8); (213, 8); (214, 8); (215, 8); (216, 8); (217, 8); (218, 8); (219, 8); (220, 8); (221, 8); (222, 8); (223, 8); (224, 8); (225, 8); (226, 8); (227, 8); (228, 8); (229, 8); (230, 8); (231, 8); (232, 8); (233, 8); (234, 8); (235, 8); (236, 8); (237, 8); (238, 8); (239, 8); (240, 8); (241, 8); (242, 8); (243, 8); (244, 8); (245, 8); (246, 8); (247, 8); (248, 8); (249, 8); (250, 8); (251, 8); (252, 8); (253, 8); (254, 8); (255, 8)];
+     h_k := 16;
+     h_stream := [0; 16; 0; 43; 0; 129; 41; 97; 0; 43; 97; 98; 43; 97; 108; 43; 97; 109; 43; 97; 114; 63; 97; 115; 0; 43; 97; 119; 44; 99; 111; 46; 99; 117; 44; 100; 111; 32; 101; 0; 45; 101; 99; 45; 101; 108; 44; 105; 102; 43; 107; 97; 44; 108; 111; 63; 110; 97; 0; 43; 110; 105; 43; 110; 110; 43; 110; 115; 44; 111; 114; 43; 114; 97; 44; 114; 105; 32; 116; 0; 44; 116; 105; 45; 122; 111; 45; 128; 99; 45; 128; 100; 44; 129; 111; 45; 131; 115];
+     h_tab := [(0, 1); (1030, 3); (16392, 6); (16416, 6); (16964, 9); (17124, 12); (17125, 12); (17140, 15); (17236, 18); (17237, 18); (17248, 21); (17316, 25); (19147, 28); (19172, 31); (19656, 34); (19968, 37); (20117, 40); (20153, 43); (21827, 46); (23168, 49); (23174, 49); (23755, 52); (24832, 55); (24916, 59); (24964, 62); (25012, 65); (26027, 68); (27268, 71); (27307, 74); (28675, 77); (28842, 80); (30821, 83); (32405, 86); (32409, 89); (32970, 92); (33645, 95)];
+     h_endings := [0; 1030; 16392; 16416; 17248; 19968; 24832; 28675];
+     h_trees := [] |}.
+Definition hx_r128c_S : list str := [[97; 97; 97; 97; 97; 97; 97; 97; 97; 97; 97; 97; 97; 97; 97; 97; 97; 97; 97; 97; 97; 97; 97; 97; 97; 97; 97; 97; 97; 97; 97; 97; 97; 97; 97; 97; 97; 97; 97; 97; 97; 97; 97; 97; 97; 97; 97; 97; 97; 97; 97; 97; 97; 97; 97; 97; 97; 97; 97; 97; 97; 97; 97; 97; 97; 97; 97; 97; 97; 97; 97; 97; 97; 97; 97; 97; 97; 97; 97; 97; 97; 97; 97; 97; 97; 97; 97; 97; 97; 97; 97; 97; 97; 97; 97; 97; 97; 97; 97; 97; 97; 97; 97; 97; 97; 97; 97; 97; 97; 97; 97; 97; 97; 97; 97; 97; 97; 97; 97; 97; 97; 97; 97; 97; 97; 97; 97; 97]; [97; 97; 97; 97; 97; 97; 97; 97; 97; 97; 97; 97; 97; 97; 97; 97; 97; 97; 97; 97; 97; 97; 97; 97; 97; 97; 97; 97; 97; 97; 97; 97; 97; 97; 97; 97; 97; 97; 97; 97; 97; 97; 97; 97; 97; 97; 97; 97; 97; 97; 97; 97; 97; 97; 97; 97; 97; 97; 97; 97; 97; 97; 97; 97; 97; 97; 97; 97; 97; 97; 97; 97; 97; 97; 97; 97; 97; 97; 97; 97; 97; 97; 97; 97; 97; 97; 97; 97; 97; 97; 97; 97; 97; 97; 97; 97; 97; 97; 97; 97; 97; 97; 97; 97; 97; 97; 97; 97; 97; 97; 97; 97; 97; 97; 97; 97; 97; 97; 97; 97; 97; 97; 97; 97; 97; 97; 97; 97; 97]; [97; 97; 97; 97; 97; 97; 97; 97; 97; 97; 97; 97; 97; 97; 97; 97; 97; 97; 97; 97; 97; 97; 97; 97; 97; 97; 97; 97; 97; 97; 97; 97; 97; 97; 97; 97; 97; 97; 97; 97; 97; 97; 97; 97; 97; 97; 97; 97; 97; 97; 97; 97; 97; 97; 97; 97; 97; 97; 97; 97; 97; 97; 97; 97; 97; 97; 97; 97; 97; 97; 97; 97; 97; 97; 97; 97; 97; 97; 97; 97; 97; 97; 97; 97; 97; 97; 97; 97; 97; 97; 97; 97; 97; 97; 97; 97; 97; 97; 97; 97; 97; 97; 97; 97; 97; 97; 97; 97; 97; 97; 97; 97; 97; 97; 97; 97; 97; 97; 97; 97; 97; 97; 97; 97; 97; 97; 97; 97; 97; 97]].
+Definition hx_r128c_d : htfc :=
+  {| h_elements := 3; h_maxlength := 131; h_maxcomplength := 37; h_buckets := 1; h_bsize := 3;
+     h_text := [85; 85; 85; 85; 85; 85; 85; 85; 85; 85; 85; 85; 85; 85; 85; 85; 85; 85; 85; 85; 85; 85; 85; 85; 85; 85; 85; 85; 85; 85; 85; 85; 0; 2; 66; 0; 36; 132; 0; 0];
+     h_bl := [0; 0; 40];
+     h_cw := [(0, 6); (4, 8); (10, 9); (11, 9); (12, 9); (13, 9); (14, 9); (15, 9); (16, 9); (17, 9); (18, 9); (19, 9); (20, 9); (21, 9); (22, 9); (23, 9); (24, 9); (25, 9); (26, 9); (27, 9); (28, 9); (29, 9); (30, 9); (31, 9); (32, 9); (33, 9); (34, 9); (35, 9); (36, 9); (37, 9); (38, 9); (39, 9); (40, 9); (41, 9); (42, 9); (43, 9); (44, 9); (45, 9); (46, 9); (47, 9); (48, 9); (49, 9); (50, 9); (51, 9); (52, 9); (53, 9); (54, 9); (55, 9); (56, 9); (57, 9); (58, 9); (59, 9); (60, 9); (61, 9); (62, 9); (63, 9); (64, 9); (65, 9); (66, 9); (67, 9); (68, 9); (69, 9); (70, 9); (71, 9); (72, 9); (73, 9); (74, 9); (75, 9); (76, 9); (77, 9); (78, 9); (79, 9); (80, 9); (81, 9); (41, 8); (42, 8); (43, 8); (44, 8); (45, 8); (46, 8); (47, 8); (48, 8); (49, 8); (50, 8); (51, 8); (52, 8); (53, 8); (54, 8); (55, 8); (56, 8); (57, 8); (58, 8); (59, 8); (60, 8); (61, 8); (62, 8); (63, 8); (1, 2); (256, 9); (257, 9); (258, 9); (259, 9); (260, 9); (261, 9); (262, 9); (263, 9); (264, 9); (265, 9); (266, 9); (267, 9); (268, 9); (269, 9); (270, 9); (271, 9); (272, 9); (273, 9); (274, 9); (275, 9); (276, 9); (277, 9); (278, 9); (279, 9); (280, 9); (281, 9); (282, 9); (283, 9); (284, 9); (285, 9); (143, 8); (72, 7); (292, 9); (293, 9); (294, 9); (295, 9); (296, 9); (297, 9); (298, 9); (299, 9); (300, 9); (301, 9); (302, 9); (303, 9); (304, 9); (305, 9); (306, 9); (307, 9); (308, 9); (309, 9); (310, 9); (311, 9); (312, 9); (313, 9); (314, 9); (315, 9); (316, 9); (317, 9); (318, 9); (319, 9); (320, 9); (321, 9); (322, 9); (323, 9); (162, 8); (163, 8); (164, 8); (165, 8); (166, 8); (167, 8); (168, 8); (169, 8); (170, 8); (171, 8); (172, 8); (173, 8); (174, 8); (175, 8); (176, 8); (177, 8); (178, 8); (179, 8); (180, 8); (181, 8); (182, 8); (183, 8); (184, 8); (185, 8); (186, 8); (187, 8); (188, 8); (189, 8); (190, 8); (191, 8); (192, 8); (193, 8); (194, 8); (195, 8); (196, 8); (197, 8); (198, 8); (199, 8); (200, 8); (201, 8); (202, 8); (203, 8); (204, 8); (205, 8); (206, 8); (207, 8); (208, 8); (209, 8); (210, 8); (211, 8); (212, 8); (213, 8); (214, 8); (215, 8); (216, 8); (217, 8); (218, 8); (219, 8); (220, 8); (221, 8); (222, 8); (223, 8); (224, 8); (225, 8); (226, 8); (227, 8); (228, 8); (229, 8); (230, 8); (231, 8); (232, 8); (233, 8); (234, 8); (235, 8); (236, 8); (237, 8); (238, 8); (239, 8); (240, 8); (241, 8); (242, 8); (243, 8); (244, 8); (245, 8); (246, 8); (247, 8); (248, 8); (249, 8); (250, 8); (251, 8); (252, 8); (253, 8); (254, 8); (255, 8)];
+     h_k := 16;
+     h_stream := [0; 16; 0; 45; 0; 1; 62; 0; 129; 97; 143; 97; 97; 97; 97; 97; 97; 97; 97; 48; 129; 97; 0];
+     h_tab := [(2, 1); (18, 3); (578, 6); (21845, 10); (36992, 19)];
+     h_endings := [2; 18; 578; 36992];
+     h_trees := [] |}.
+
+Lemma hx_usa_checked :
+  htfc_check hx_usa_S hx_usa_d = true /\ htfc_check2 hx_usa_S hx_usa_d = true /\ valid_set_b hx_usa_S = true.
+Proof. vm_compute. auto. Qed.
+
+(* the faithful model reproduces the defect: the object of the real constructor for a valid set whose second
+   string shares 128 bytes with the first one does not answer extract(2) (the real code crashes in
+   StatCoder::decodeString: replayed by wip/htfc/one.py r128c); both checkers reject the object *)
+Theorem htfc_lcp128_refuted :
+  valid_set_b hx_r128c_S = true /\
+  spec_extract hx_r128c_S 2 = Some (repeat 97 129) /\ htfc_extract hx_r128c_d 2 = None /\
+  htfc_check hx_r128c_S hx_r128c_d = false /\ htfc_check2 hx_r128c_S hx_r128c_d = false.
+Proof. vm_compute. auto 10. Qed.
+
+Lemma hvalid_set_b_sound S : valid_set_b S = true -> valid_set S.
+Proof.
+  unfold valid_set_b, valid_set. rewrite !andb_true_iff. intros [[H1 H2] H3]. repeat split.
+  - destruct S; [discriminate|congruence].
+  - apply Forall_forall. intros s Hs. rewrite forallb_forall in H2. specialize (H2 s Hs).
+    unfold valid_str_b in H2. apply andb_true_iff in H2. destruct H2 as [Hn Hb]. split.
+    + destruct s; [discriminate|congruence].
+    + apply Forall_forall. intros c Hc. rewrite forallb_forall in Hb. specialize (Hb c Hc).
+      apply andb_true_iff in Hb. destruct Hb as [Ha Hb']. apply N.leb_le in Ha, Hb'. split; assumption.
+  - apply sorted_lt_b_sound. exact H3.
+Qed.
+
+Lemma hx_usa_valid : valid_set hx_usa_S.
+Proof. apply hvalid_set_b_sound. apply hx_usa_checked. Qed.
+
+(* the hypotheses of [decode_string_item] on hx_usa: the second string of bucket 1 (alaska after alabama, lcp 3) *)
+Definition hx_st1 : bst * ast :=
+  match opt_bind (decode_header hx_usa_d 1) (reset_scan hx_usa_d 1) with Some st => st | None => st0_dummy end.
+Definition hx_walk : bst * list N :=
+  match item_walk 20 hx_usa_d (fst hx_st1) [] 5 with Some r => r | None => (fst st0_dummy, []) end.
+
+Lemma buf_at_0_intro l rest : buf_at (l ++ rest) 0 l.
+Proof. intros j x Hj. rewrite N.add_0_l. rewrite nthN_app_l; [exact Hj|]. apply nthN_Some_lt in Hj. exact Hj. Qed.
+
+Lemma hx_item_hyps :
+  holds_adv (snd hx_st1) [97; 108; 97; 98; 97; 109; 97] [] /\
+  reads hx_usa_d (fst hx_st1) [] (lenN (((3 + 128) :: [115; 107; 97]) ++ [0])) (fst hx_walk) (snd hx_walk) /\
+  snd hx_walk = (((3 + 128) :: [115; 107; 97]) ++ [0]) ++ skipN 5 (snd hx_walk) /\
+  lenN [97; 108; 97; 98; 97; 109; 97] + 1 + lenN (snd hx_walk) < str_cap hx_usa_d.
+Proof.
+  split; [|split; [|split]].
+  - split; [vm_compute; reflexivity|]. split; [vm_compute; reflexivity|].
+    assert (E : exists rest, a_buf (snd hx_st1) = ([97; 108; 97; 98; 97; 109; 97] ++ [0]) ++ rest).
+    { eexists. vm_compute. reflexivity. }
+    destruct E as [rest E]. rewrite E. apply buf_at_0_intro.
+  - apply (item_walk_sound hx_usa_d 20). vm_compute. reflexivity.
+  - vm_compute. reflexivity.
+  - vm_compute. reflexivity.
+Qed.
